@@ -18,18 +18,25 @@ theorem any_pyIs_action (as : List PyVal) (k : Nat) (h : k < as.length) :
   refine ⟨as.getD k .none, ?_, pyIs_refl _⟩
   simp [List.getD_eq_getElem?_getD, List.getElem?_eq_getElem h]
 
-/-- a top-level object built by a learner -/
-def isLrn : PyVal → Bool
-  | .flt (.lrn _) _ | .str (.lrn _) _ | .tuple (.lrn _) _ | .list (.lrn _) _ | .dict (.lrn _) _ _ => true
+/-- an object made while answering / parsing (tuple or list) is none of the offered objects -/
+def freshSeq : PyVal → Bool
+  | .tuple (.lrn _) _ | .list (.lrn _) _ | .tuple .tmp _ | .list .tmp _ => true
   | _ => false
 
-theorem pyIs_lrn_seq (t : Bool) (xs : List PyVal) (a : PyVal) (h : isLrn a = false) : pyIs (mkSeq t xs) a = false := by
-  cases t <;> cases a <;> simp_all [mkSeq, pyIs]
-  all_goals (rename_i r _; cases r <;> simp_all [isLrn])
+theorem pyIs_freshSeq (v a : PyVal) (hv : freshSeq v = true) (h : isLrn a = false) : pyIs v a = false := by
+  cases v <;> simp [freshSeq] at hv
+  all_goals cases a <;> simp [pyIs]
+  all_goals (rename_i r _ r' _; cases r <;> cases r' <;> simp_all [isLrn, freshSeq])
+
+theorem any_pyIs_freshSeq (v : PyVal) (as : List PyVal) (hv : freshSeq v = true) (h : ∀ a ∈ as, isLrn a = false) :
+    as.any (fun a => pyIs v a) = false := by
+  rw [List.any_eq_false]; intro a ha; simp [pyIs_freshSeq v a hv (h a ha)]
+
+@[simp] theorem freshSeq_mkSeq (t : Bool) (xs : List PyVal) : freshSeq (mkSeq t xs) = true := by
+  cases t <;> simp [mkSeq, freshSeq]
 
 theorem any_pyIs_lrn_seq (t : Bool) (xs : List PyVal) (as : List PyVal) (h : ∀ a ∈ as, isLrn a = false) :
-    as.any (fun a => pyIs (mkSeq t xs) a) = false := by
-  rw [List.any_eq_false]; intro a ha; simp [pyIs_lrn_seq t xs a (h a ha)]
+    as.any (fun a => pyIs (mkSeq t xs) a) = false := any_pyIs_freshSeq _ as (by simp) h
 
 /-! ### sequences built by the learner -/
 
@@ -89,12 +96,6 @@ theorem predFormat_AP (fx : Fixes) (v : PyVal) (a p : PyVal) (as : List PyVal)
   all_goals subst hv
   all_goals cases as <;> simp_all [predFormat, PyVal.isDict, PyVal.hasLen, PyVal.isStr, PyVal.len, getIdx, bind, Except.bind, pure, Except.pure]
 
-/-- a PMF over the actions: numeric, non-negative, summing to one -/
-def validPmf (pmf : List PyVal) (as : List PyVal) : Bool :=
-  pmf.length == as.length &&
-  (match sumNums pmf with | some s => s == 1 | Option.none => false) &&
-  pmf.all (fun x => match x.num with | some q => decide (0 ≤ q) | Option.none => false)
-
 theorem validPmf_length {pmf as : List PyVal} (h : validPmf pmf as = true) : pmf.length = as.length := by
   simp only [validPmf, Bool.and_eq_true, beq_iff_eq] at h; exact h.1.1
 
@@ -110,5 +111,1513 @@ theorem possiblePmf_valid (t : Bool) (pmf as : List PyVal) (h : validPmf pmf as 
     have h0 : ((1 : Rat) - 1 ≤ 1 / 1000) := by norm_num
     simp only [possiblePmf, items_mkSeq, h1, hs, h0, beq_self_eq_true, Bool.true_and, and_self, decide_true]
     exact h3
+
+
+
+theorem predFormat_PM (fx : Fixes) (t : Bool) (pmf as : List PyVal)
+    (hne : as ≠ []) (hlrn : ∀ a ∈ as, isLrn a = false) (hv : validPmf pmf as = true)
+    (hfresh : ∀ x y, pmf = [x, y] → as.any (fun a => pyIs x a) = false)
+    (hshort : fx.short = true ∨ 2 ≤ pmf.length) :
+    predFormat fx (mkSeq t pmf) (some as) = .ok ⟨.PM, false⟩ := by
+  have hp := possiblePmf_valid t pmf as hv
+  have hid := any_pyIs_lrn_seq t pmf as hlrn
+  have hlen : pmf.length = as.length := validPmf_length hv
+  have hemp : as.isEmpty = false := by cases as <;> simp_all
+  unfold predFormat
+  simp only [isDict_mkSeq, hasLen_mkSeq, isStr_mkSeq, len_mkSeq, Option.getD_some, hemp]
+  rcases pmf with _ | ⟨x, _ | ⟨y, _ | ⟨z, r⟩⟩⟩
+  · cases as <;> simp_all
+  · rcases hshort with hs | hs
+    · simp [hs, hp, hid, bind, Except.bind, pure, Except.pure]
+    · simp at hs
+  · have := hfresh x y rfl
+    cases fx.short <;> simp [this, hp, hid, bind, Except.bind, pure, Except.pure]
+  · have h3 : ¬ (r.length + 1 + 1 + 1 < 2) := by omega
+    have hid' : ¬ ∃ a ∈ as, pyIs (mkSeq t (x :: y :: z :: r)) a = true := by simpa using hid
+    cases fx.short <;> simp [hp, hid', h3, bind, Except.bind, pure, Except.pure]
+
+
+
+theorem predFormat_A (fx : Fixes) (a : PyVal) (as : List PyVal)
+    (ha : as.any (fun x => pyIs a x) = true)
+    (hhint : isHint a = false)
+    (htwo : ∀ x y, a.items = some [x, y] → as.any (fun b => pyIs x b) = false)
+    (hshort : fx.short = true ∨ longEnough a = true) :
+    predFormat fx a (some as) = .ok ⟨.AX, false⟩ := by
+  have hemp : as.isEmpty = false := by cases as <;> simp_all
+  have ha' : ∃ x ∈ as, pyIs a x = true := by simpa using ha
+  unfold predFormat
+  cases a with
+  | none | bool | int | flt =>
+    simp [PyVal.isDict, PyVal.hasLen, hemp, ha', bind, Except.bind, pure, Except.pure]
+  | str r s => simp [PyVal.isDict, PyVal.hasLen, PyVal.isStr, hemp, ha', bind, Except.bind, pure, Except.pure]
+  | tuple r xs =>
+    rcases xs with _ | ⟨x, _ | ⟨y, _ | ⟨z, r⟩⟩⟩
+    · rcases hshort with hs | hs
+      · simp [PyVal.isDict, PyVal.hasLen, PyVal.isStr, PyVal.len, hemp, ha', hs, bind, Except.bind, pure, Except.pure]
+      · simp [longEnough] at hs
+    · rcases hshort with hs | hs
+      · simp [PyVal.isDict, PyVal.hasLen, PyVal.isStr, PyVal.len, hemp, ha', hs, bind, Except.bind, pure, Except.pure]
+      · simp [longEnough] at hs
+    · have h2 := htwo x y (by simp [PyVal.items])
+      have h2' : ¬ ∃ b ∈ as, pyIs x b = true := by simpa using h2
+      cases fx.short <;> simp [PyVal.isDict, PyVal.hasLen, PyVal.isStr, PyVal.len, getIdx, hemp, ha', h2, bind, Except.bind, pure, Except.pure]
+    · have h3 : ¬ (r.length + 1 + 1 + 1 < 2) := by omega
+      cases fx.short <;> simp [PyVal.isDict, PyVal.hasLen, PyVal.isStr, PyVal.len, hemp, ha', h3, bind, Except.bind, pure, Except.pure]
+  | list r xs =>
+    rcases xs with _ | ⟨x, _ | ⟨y, _ | ⟨z, r⟩⟩⟩
+    · rcases hshort with hs | hs
+      · simp [PyVal.isDict, PyVal.hasLen, PyVal.isStr, PyVal.len, hemp, ha', hs, bind, Except.bind, pure, Except.pure]
+      · simp [longEnough] at hs
+    · rcases hshort with hs | hs
+      · simp [PyVal.isDict, PyVal.hasLen, PyVal.isStr, PyVal.len, hemp, ha', hs, bind, Except.bind, pure, Except.pure]
+      · simp [longEnough] at hs
+    · have h2 := htwo x y (by simp [PyVal.items])
+      have h2' : ¬ ∃ b ∈ as, pyIs x b = true := by simpa using h2
+      cases fx.short <;> simp [PyVal.isDict, PyVal.hasLen, PyVal.isStr, PyVal.len, getIdx, hemp, ha', h2, bind, Except.bind, pure, Except.pure]
+    · have h3 : ¬ (r.length + 1 + 1 + 1 < 2) := by omega
+      cases fx.short <;> simp [PyVal.isDict, PyVal.hasLen, PyVal.isStr, PyVal.len, hemp, ha', h3, bind, Except.bind, pure, Except.pure]
+  | dict r ks vs =>
+    simp only [isHint, Bool.or_eq_false_iff] at hhint
+    obtain ⟨⟨h1, h2⟩, h3⟩ := hhint
+    have h1 : "action" ∉ ks := by simpa using h1
+    have h2 : "action_prob" ∉ ks := by simpa using h2
+    have h3 : "pmf" ∉ ks := by simpa using h3
+    rcases hshort with hs | hs
+    · simp [PyVal.isDict, PyVal.hasLen, PyVal.isStr, PyVal.len, hasKey, h1, h2, h3, hemp, ha', hs, bind, Except.bind, pure, Except.pure]
+    · simp [longEnough] at hs
+      have h4 : ¬ (ks.length < 2) := by omega
+      have h5 : ¬ (ks.length = 2) := by omega
+      cases fx.short <;> simp [PyVal.isDict, PyVal.hasLen, PyVal.isStr, PyVal.len, hasKey, h1, h2, h3, hemp, ha', hs, h4, h5, bind, Except.bind, pure, Except.pure]
+
+
+
+
+theorem isDict_of_num {x : PyVal} {q : Rat} (h : x.num = some q) : x.isDict = false := by
+  cases x <;> simp_all [PyVal.num, PyVal.isDict]
+
+@[simp] theorem lastIsDict_mkSeq_snoc (t : Bool) (xs : List PyVal) (x : PyVal) :
+    lastIsDict (mkSeq t (xs ++ [x])) = x.isDict := by simp [lastIsDict]
+
+theorem lastIsDict_pmf (t : Bool) (pmf as : List PyVal) (hv : validPmf pmf as = true) :
+    lastIsDict (mkSeq t pmf) = false := by
+  simp only [validPmf, Bool.and_eq_true] at hv
+  have h3 := hv.2
+  rcases List.eq_nil_or_concat pmf with rfl | ⟨xs, x, rfl⟩
+  · cases t <;> simp [lastIsDict, mkSeq, getLast]
+  · have : (match x.num with | some q => decide (0 ≤ q) | Option.none => false) = true := by
+      have := List.all_eq_true.mp h3 x (by simp)
+      exact this
+    cases hx : x.num with
+    | none => simp [hx] at this
+    | some q => simp [isDict_of_num hx]
+
+/-- the first row's answer tells whether kwargs follow -/
+theorem lastIsDict_renderSingle (fx : Fixes) (sp : Spec) (ans : Answer) (as : List PyVal)
+    (h : firstRowOK fx sp ans as = true) : lastIsDict (renderSingle sp ans as) = sp.kw := by
+  obtain ⟨fmt, kw, lay, tup, ptup⟩ := sp
+  simp only [firstRowOK, Bool.and_eq_true] at h
+  obtain ⟨⟨hp, hl⟩, hf⟩ := h
+  cases kw
+  · cases fmt
+    case A =>
+      simp only [Bool.and_eq_true, Bool.false_or, Bool.not_eq_true'] at hf
+      simpa [renderSingle, core, Answer.action] using hf.1.1.1
+    case AP =>
+      have : lastIsDict (mkSeq tup ([as.getD ans.pick .none] ++ [ans.p])) = false := by
+        rw [lastIsDict_mkSeq_snoc]; simpa using hf
+      simpa [renderSingle, core] using this
+    case PM =>
+      simp only [Bool.and_eq_true] at hf
+      simpa [renderSingle, core, mkPmf] using lastIsDict_pmf ptup ans.pmf as hf.1.1
+    all_goals simp [renderSingle, core, lastIsDict, getLast]
+  · have : ∀ c : List PyVal, lastIsDict (mkSeq tup (c ++ [kwDict ans])) = true := by
+      intro c; simp [kwDict, PyVal.isDict]
+    cases fmt <;> exact this _
+
+
+
+/-- what `first_row` extracts from one row's answer: the answer without its kwargs -/
+def rowStd (sp : Spec) (ans : Answer) (as : List PyVal) : PyVal :=
+  match core sp ans as with
+  | [x] => x
+  | c => if sp.kw then seqTmp sp.tup c else mkSeq sp.tup c
+
+theorem firstRow_not_renderSingle (sp : Spec) (ans : Answer) (as : List PyVal) :
+    firstRow (renderSingle sp ans as) .not sp.kw = .ok (rowStd sp ans as) := by
+  obtain ⟨fmt, kw, lay, tup, ptup⟩ := sp
+  cases kw
+  · cases fmt <;> simp [firstRow, renderSingle, rowStd, core, pure, Except.pure, bind, Except.bind]
+  · cases fmt <;> simp [firstRow, renderSingle, rowStd, core, pure, Except.pure, bind, Except.bind]
+    -- AP: three items, the slice
+    have := dropLast_mkSeq tup [as.getD ans.pick .none, ans.p] (kwDict ans)
+    simpa using this
+
+theorem predFormat_rowStd (fx : Fixes) (sp : Spec) (ans : Answer) (as : List PyVal)
+    (h : firstRowOK fx sp ans as = true) :
+    predFormat fx (rowStd sp ans as) (some as) = .ok sp.pfmt := by
+  obtain ⟨fmt, kw, lay, tup, ptup⟩ := sp
+  simp only [firstRowOK, Bool.and_eq_true, decide_eq_true_eq] at h
+  obtain ⟨⟨hp, hl⟩, hf⟩ := h
+  have hl' : ∀ a ∈ as, isLrn a = false := by
+    intro a ha; have := List.all_eq_true.mp hl a ha; simpa using this
+  have hne : as ≠ [] := by intro h0; simp [h0] at hp
+  have hact := any_pyIs_action as ans.pick hp
+  cases fmt
+  case A =>
+    simp only [Bool.and_eq_true, Bool.or_eq_true, Bool.not_eq_true'] at hf
+    obtain ⟨⟨⟨_, hh⟩, h2⟩, hs⟩ := hf
+    have := predFormat_A fx (ans.action as) as (by simpa [Answer.action] using hact) hh
+      (by
+        intro x y hxy
+        simp only [hxy] at h2
+        simpa using h2)
+      (by simpa using hs)
+    simpa [rowStd, core, Spec.pfmt, Fmt.kind, Fmt.hinted, Answer.action] using this
+  case AP =>
+    have : (rowStd ⟨.AP, kw, lay, tup, ptup⟩ ans as).items = some [as.getD ans.pick .none, ans.p] := by
+      cases kw <;> simp [rowStd, core]
+    simpa [Spec.pfmt, Fmt.kind, Fmt.hinted] using predFormat_AP fx _ _ _ as this hact
+  case PM =>
+    simp only [Bool.and_eq_true, Bool.or_eq_true, decide_eq_true_eq] at hf
+    obtain ⟨⟨hv, h2⟩, hs⟩ := hf
+    have := predFormat_PM fx ptup ans.pmf as hne hl' hv
+      (by intro x y hxy; simp only [hxy] at h2; simpa using h2) hs
+    simpa [rowStd, core, mkPmf, Spec.pfmt, Fmt.kind, Fmt.hinted] using this
+  case dA => simpa [rowStd, core, Spec.pfmt, Fmt.kind, Fmt.hinted] using predFormat_dA fx _ as
+  case dAP => simpa [rowStd, core, Spec.pfmt, Fmt.kind, Fmt.hinted] using predFormat_dAP fx tup _ _ as
+  case dPM =>
+    have hlen : ans.pmf.length = as.length := by simpa using hf
+    simpa [rowStd, core, mkPmf, Spec.pfmt, Fmt.kind, Fmt.hinted] using predFormat_dPM fx ptup _ as hne hlen
+
+
+
+theorem parseNot_renderSingle (sp : Spec) (ans : Answer) (as : List PyVal) (st : State) (hkw : st.hasKw = sp.kw) :
+    parseNot st sp.pfmt as (renderSingle sp ans as) = wantSingle sp st.rng ans as := by
+  obtain ⟨fmt, kw, lay, tup, ptup⟩ := sp
+  simp only at hkw
+  cases kw <;> cases fmt <;> cases tup <;>
+      simp [parseNot, hkw, renderSingle, core, wantSingle, Spec.pfmt, Fmt.kind, Fmt.hinted, emptyKw, Answer.action, mkSeq, firstValue,
+        getLast, getIdx, lenE, PyVal.hasLen, PyVal.len, pure, Except.pure, bind, Except.bind]
+  all_goals (cases choicew st.rng as (mkPmf ptup ans.pmf) <;> rfl)
+
+
+
+
+theorem inv_after {sp : Spec} {b : Bool} {st : State} (h : st = stAfter sp b st st.rng) :
+    st.method = some (if b && sp.layout == .single then 2 else 1) ∧
+    st.layout = some (if !b then .not else if sp.layout == .col then .col else .row) ∧
+    st.hasKw = sp.kw ∧ st.fmt = some sp.pfmt := by
+  refine ⟨?_, ?_, ?_, ?_⟩ <;> (rw [h]; simp [stAfter])
+
+theorem predictCore_single (fx : Fixes) (sp : Spec) (pol : Policy) (st : State) (c : PyVal) (as : List PyVal)
+    (hinv : Inv sp false st)
+    (hfirst : st.layout = Option.none → firstRowOK fx sp (pol c as) as = true) :
+    predictCore fx (scripted sp pol) st (.single c as) =
+      (wantSingle sp st.rng (pol c as) as).map (fun x => (x.1, stAfter sp false st x.2)) := by
+  rcases hinv with ⟨hm, hl⟩ | hst
+  · -- first call
+    have h := hfirst hl
+    have hkw := lastIsDict_renderSingle fx sp (pol c as) as h
+    have hfr := firstRow_not_renderSingle sp (pol c as) as
+    have hpf := predFormat_rowStd fx sp (pol c as) as h
+    have hk : hasKwargs (renderSingle sp (pol c as) as) .not = sp.kw := by
+      simpa [hasKwargs, lastIsDict] using hkw
+    simp only [predictCore, safeCall, hm, scripted, bind, Except.bind, pure, Except.pure, detect, hl, batchOrder, batchOrderPre]
+    simp [hk, hfr, hpf, bind, Except.bind, pure, Except.pure, parse]
+    rw [parseNot_renderSingle _ _ _ _ rfl]
+    cases wantSingle sp st.rng (pol c as) as <;> simp [Except.map, stAfter]
+  · obtain ⟨hm, hl, hk, hf⟩ := inv_after hst
+    simp at hm hl
+    simp only [predictCore, safeCall, hm, scripted, bind, Except.bind, pure, Except.pure, detect, hl, parse, hf]
+    rw [parseNot_renderSingle _ _ _ _ (by simpa using hk)]
+    cases wantSingle sp st.rng (pol c as) as <;> simp [Except.map, stAfter, hk]
+
+
+
+
+theorem mapE_map_ok {α β γ} (f : β → Except Err γ) (g : α → β) (h : α → γ) (xs : List α)
+    (hx : ∀ x ∈ xs, f (g x) = .ok (h x)) : mapE f (xs.map g) = .ok (xs.map h) := by
+  induction xs with
+  | nil => simp [mapE, pure, Except.pure]
+  | cons x xs ih =>
+    have h1 := hx x (by simp)
+    have h2 := ih (fun y hy => hx y (by simp [hy]))
+    simp [mapE, h1, h2, bind, Except.bind, pure, Except.pure]
+
+theorem mapE_ok {α β} (f : α → Except Err β) (h : α → β) (xs : List α)
+    (hx : ∀ x ∈ xs, f x = .ok (h x)) : mapE f xs = .ok (xs.map h) := by
+  have := mapE_map_ok f id h xs (by simpa using hx)
+  simpa using this
+
+/-- `zip(*rows)` of rows that are pairs -/
+theorem zipStar_pairs {α} (f g : α → PyVal) (xs : List α) (hne : xs ≠ []) :
+    zipStar (xs.map (fun x => [f x, g x])) = [xs.map f, xs.map g] := by
+  have heads_eq : ∀ (ys : List α) (f g : α → PyVal), heads (ys.map (fun x => [f x, g x])) = some (ys.map f) := by
+    intro ys f g; induction ys with
+    | nil => simp [heads]
+    | cons y ys ih => simp [heads, ih]
+  have tails_eq : ∀ (ys : List α), tails (ys.map (fun x => [f x, g x])) = ys.map (fun x => [g x]) := by
+    intro ys; induction ys with
+    | nil => simp [tails]
+    | cons y ys ih => simp [tails, ih]
+  have heads1 : ∀ (ys : List α), heads (ys.map (fun x => [g x])) = some (ys.map g) := by
+    intro ys; induction ys with
+    | nil => simp [heads]
+    | cons y ys ih => simp [heads, ih]
+  have tails1 : ∀ (ys : List α), tails (ys.map (fun x => [g x])) = ys.map (fun _ => []) := by
+    intro ys; induction ys with
+    | nil => simp [tails]
+    | cons y ys ih => simp [tails, ih]
+  cases xs with
+  | nil => exact absurd rfl hne
+  | cons x xs =>
+    have h1 := heads_eq (x :: xs) f g
+    have h2 := tails_eq (x :: xs)
+    have h3 := heads1 (x :: xs)
+    have h4 := tails1 (x :: xs)
+    simp only [List.map_cons] at h1 h2 h3 h4
+    simp [zipStar, zipStarAux, h1, h2, h3]
+
+
+
+
+theorem lookupKey_isSome (k : String) (ks : List String) (vs : List PyVal) (hl : vs.length = ks.length) (hk : k ∈ ks) :
+    ∃ v, lookupKey k ks vs = some v := by
+  induction ks generalizing vs with
+  | nil => simp at hk
+  | cons k' ks ih =>
+    cases vs with
+    | nil => simp at hl
+    | cons v vs =>
+      by_cases h : k = k'
+      · exact ⟨v, by simp [lookupKey, h]⟩
+      · have hk' : k ∈ ks := by simpa [h] using hk
+        obtain ⟨w, hw⟩ := ih vs (by simpa using hl) hk'
+        exact ⟨w, by simp [lookupKey, h, hw]⟩
+
+theorem getKey_kwDict (k : String) (ans : Answer) (hl : ans.kwVals.length = ans.kwKeys.length) (hk : k ∈ ans.kwKeys) :
+    getKey k (kwDict ans) = .ok ((lookupKey k ans.kwKeys ans.kwVals).getD .none) := by
+  obtain ⟨v, hv⟩ := lookupKey_isSome k ans.kwKeys ans.kwVals hl hk
+  simp [getKey, kwDict, hv]
+
+theorem kwColumns_kwDicts (R : List (Answer × List PyVal)) (a0 : Answer) (as0 : List PyVal) (R' : List (Answer × List PyVal))
+    (hR : R = (a0, as0) :: R') (hs : sameKeys R = true) :
+    kwColumns (R.map (fun r => kwDict r.1)) =
+      .ok (.dict .tmp a0.kwKeys (a0.kwKeys.map (fun k => PyVal.list .tmp (R.map (fun r => (lookupKey k r.1.kwKeys r.1.kwVals).getD .none))))) := by
+  subst hR
+  simp only [sameKeys, List.all_eq_true, Bool.and_eq_true, beq_iff_eq] at hs
+  simp only [kwColumns, List.map_cons, kwDict, bind, Except.bind]
+  have : mapE (fun k => do
+        let col ← mapE (getKey k) (PyVal.dict (.lrn 0) a0.kwKeys a0.kwVals :: R'.map (fun r => PyVal.dict (.lrn 0) r.1.kwKeys r.1.kwVals))
+        pure (PyVal.list .tmp col)) a0.kwKeys
+      = .ok (a0.kwKeys.map (fun k => PyVal.list .tmp (((a0, as0) :: R').map (fun r => (lookupKey k r.1.kwKeys r.1.kwVals).getD .none)))) := by
+    apply mapE_ok
+    intro k hk
+    have hcol : mapE (getKey k) (((a0, as0) :: R').map (fun r => kwDict r.1))
+        = .ok (((a0, as0) :: R').map (fun r => (lookupKey k r.1.kwKeys r.1.kwVals).getD .none)) := by
+      apply mapE_map_ok
+      intro r hr
+      have := hs r hr
+      exact getKey_kwDict k r.1 this.2 (by rw [this.1]; exact hk)
+    simp only [List.map_cons, kwDict] at hcol
+    simp [hcol, bind, Except.bind, pure, Except.pure]
+  simp only [bind, Except.bind, pure, Except.pure] at this ⊢
+  rw [this]
+  simp
+
+
+
+
+theorem getLast_renderSingle_kw (sp : Spec) (ans : Answer) (as : List PyVal) (hk : sp.kw = true) :
+    getLast (renderSingle sp ans as) = .ok (kwDict ans) := by
+  obtain ⟨fmt, kw, lay, tup, ptup⟩ := sp
+  simp only at hk; subst hk
+  cases fmt <;> exact getLast_mkSeq tup _ _
+
+theorem rowBody_renderSingle_kw (sp : Spec) (ans : Answer) (as : List PyVal) (hk : sp.kw = true) :
+    rowBody (renderSingle sp ans as) = .ok (rowStd sp ans as) := by
+  have := firstRow_not_renderSingle sp ans as
+  simpa [firstRow, hk, rowBody, bind, Except.bind, pure, Except.pure] using this
+
+theorem renderSingle_nokw (sp : Spec) (ans : Answer) (as : List PyVal) (hk : sp.kw = false) :
+    renderSingle sp ans as = rowStd sp ans as := by
+  obtain ⟨fmt, kw, lay, tup, ptup⟩ := sp
+  simp only at hk; subst hk
+  cases fmt <;> simp [renderSingle, rowStd, core]
+
+theorem kwColumns_empty {α} (R : List α) (hne : R ≠ []) :
+    kwColumns (R.map (fun _ => PyVal.dict .tmp [] [])) = .ok (.dict .tmp [] []) := by
+  cases R with
+  | nil => exact absurd rfl hne
+  | cons r R => simp [kwColumns, mapE, pure, Except.pure, bind, Except.bind]
+
+
+
+
+/-- the kwargs `_parse_pred` builds for a row-major batch -/
+def kwRowVal (sp : Spec) (R : List (Answer × List PyVal)) : PyVal :=
+  if sp.kw then
+    match R with
+    | [] => .dict .tmp [] []
+    | (a0, _) :: _ => .dict .tmp a0.kwKeys (a0.kwKeys.map (fun k => PyVal.list .tmp (R.map (fun r => (lookupKey k r.1.kwKeys r.1.kwVals).getD .none))))
+  else .dict .tmp [] []
+
+theorem allItems_lists (cols : List (List PyVal)) (r : Ref) : allItems (cols.map (fun c => PyVal.list r c)) = some cols := by
+  induction cols with
+  | nil => simp [allItems]
+  | cons c cs ih => simp [allItems, ih, PyVal.items]
+
+theorem kwRowVal_view (sp : Spec) (R : List (Answer × List PyVal)) (a p : PyVal) (A P : List PyVal)
+    (ha : a.items = some A) (hp : p.items = some P) :
+    (Result.mk a p (kwRowVal sp R)).view = some ⟨A, P, (wantKw sp R).1, (wantKw sp R).2⟩ := by
+  unfold kwRowVal wantKw
+  cases hk : sp.kw
+  · simp [Result.view, ha, hp, allItems]
+  · cases R with
+    | nil => simp [Result.view, ha, hp, allItems]
+    | cons r R' =>
+      obtain ⟨a0, as0⟩ := r
+      have := allItems_lists (a0.kwKeys.map (fun k => ((a0, as0) :: R').map (fun r => (lookupKey k r.1.kwKeys r.1.kwVals).getD .none))) .tmp
+      simp only [List.map_map] at this
+      simp [Result.view, ha, hp]
+      exact this
+
+abbrev Rows := List (Answer × List PyVal)
+
+def renders (sp : Spec) (R : Rows) : List PyVal := R.map (fun r => renderSingle sp r.1 r.2)
+
+theorem kws_kw (sp : Spec) (R : Rows) (hne : R ≠ []) (hk : sp.kw = true) (hs : sameKeys R = true) :
+    (mapE (fun p => getLast p) (renders sp R)).bind kwColumns = .ok (kwRowVal sp R) := by
+  have h1 : mapE (fun p => getLast p) (renders sp R) = .ok (R.map (fun r => kwDict r.1)) :=
+    mapE_map_ok _ _ _ R (fun r _ => getLast_renderSingle_kw sp r.1 r.2 hk)
+  cases R with
+  | nil => exact absurd rfl hne
+  | cons r R' =>
+    obtain ⟨a0, as0⟩ := r
+    have h2 := kwColumns_kwDicts ((a0, as0) :: R') a0 as0 R' rfl hs
+    rw [h1]
+    simp only [Except.bind, h2, kwRowVal, hk, ↓reduceIte]
+
+theorem kws_nokw (sp : Spec) (R : Rows) (hne : R ≠ []) (hk : sp.kw = false) :
+    kwColumns ((renders sp R).map (fun _ => PyVal.dict .tmp [] [])) = .ok (kwRowVal sp R) := by
+  have := kwColumns_empty R hne
+  simpa [renders, kwRowVal, hk, Function.comp_def] using this
+
+theorem body_kw (sp : Spec) (R : Rows) (hk : sp.kw = true) :
+    mapE rowBody (renders sp R) = .ok (R.map (fun r => rowStd sp r.1 r.2)) :=
+  mapE_map_ok _ _ _ R (fun r _ => rowBody_renderSingle_kw sp r.1 r.2 hk)
+
+theorem body_nokw (sp : Spec) (R : Rows) (hk : sp.kw = false) :
+    renders sp R = R.map (fun r => rowStd sp r.1 r.2) := by
+  simp [renders, renderSingle_nokw sp _ _ hk]
+
+
+
+
+theorem choicewRows_ne (s : Nat) (rows : List (List PyVal)) (ps : List PyVal) (s' : Nat) (A P : List PyVal)
+    (h : choicewRows s rows ps = .ok (s', A, P)) (hr : rows ≠ []) (hp : ps ≠ []) : A.isEmpty = false := by
+  cases rows with
+  | nil => exact absurd rfl hr
+  | cons r rows =>
+    cases ps with
+    | nil => exact absurd rfl hp
+    | cons p ps =>
+      simp only [choicewRows, bind, Except.bind] at h
+      cases h1 : choicew s r p with
+      | error e => simp [h1] at h
+      | ok v =>
+        obtain ⟨s1, a, w⟩ := v
+        simp only [h1] at h
+        cases h2 : choicewRows s1 rows ps with
+        | error e => simp [h2] at h
+        | ok v2 =>
+          obtain ⟨s2, A2, P2⟩ := v2
+          simp only [h2, pure, Except.pure, Except.ok.injEq, Prod.mk.injEq] at h
+          obtain ⟨_, hA, _⟩ := h
+          subst hA; rfl
+
+theorem items_noneList (n : Nat) : (noneList n).items = some (List.replicate n .none) := by simp [noneList, PyVal.items]
+
+theorem replicate_map_length {α} (R : List α) (f : α → PyVal) :
+    List.replicate (R.map f).length PyVal.none = R.map (fun _ => PyVal.none) := by
+  induction R with
+  | nil => rfl
+  | cons r R ih => simp [List.replicate_succ]
+
+@[simp] theorem iter_seqTmp (t : Bool) (xs : List PyVal) : iter (seqTmp t xs) = .ok xs := by
+  cases t <;> simp [seqTmp, iter]
+
+/-- the value of one row once kwargs and hint are stripped: the action, the (action, prob) pair, the PMF -/
+def inner (sp : Spec) (ans : Answer) (as : List PyVal) : PyVal :=
+  match sp.fmt with
+  | .A | .dA => ans.action as
+  | .AP => rowStd sp ans as
+  | .dAP => mkSeq sp.tup [ans.action as, ans.p]
+  | .PM | .dPM => mkPmf sp.pmfTup ans.pmf
+
+theorem iter_inner_AP (sp : Spec) (ans : Answer) (as : List PyVal) (h : sp.fmt.kind = .AP) :
+    iter (inner sp ans as) = .ok [ans.action as, ans.p] := by
+  obtain ⟨fmt, kw, lay, tup, ptup⟩ := sp
+  cases fmt <;> simp [Fmt.kind] at h
+  · cases kw <;> simp [inner, rowStd, core, Answer.action]
+  · simp [inner]
+
+theorem finishRows_spec (sp : Spec) (s : Nat) (R : Rows) (hne : R ≠ []) (bodyV : PyVal)
+    (hb : bodyV.items = some (R.map (fun r => inner sp r.1 r.2))) :
+    DeliversN (finishRows s sp.fmt.kind (R.map (·.2)) (R.map (fun r => inner sp r.1 r.2)) bodyV (kwRowVal sp R))
+      (wantBatch sp s R) := by
+  cases hk : sp.fmt.kind
+  case AX =>
+    have hin : ∀ r : Answer × List PyVal, inner sp r.1 r.2 = r.1.action r.2 := by
+      intro r; obtain ⟨fmt, kw, lay, tup, ptup⟩ := sp; cases fmt <;> simp [Fmt.kind] at hk <;> simp [inner]
+    simp only [finishRows, wantBatch, hk, DeliversN, pure, Except.pure]
+    refine ⟨_, rfl, ?_⟩
+    have := kwRowVal_view sp R bodyV (noneList (R.map (fun r => inner sp r.1 r.2)).length) _ _ hb (items_noneList _)
+    rw [this, replicate_map_length]
+    simp [hin]
+  case AP =>
+    have h1 : mapE itemsE (R.map (fun r => inner sp r.1 r.2)) = .ok (R.map (fun r => [r.1.action r.2, r.1.p])) :=
+      mapE_map_ok _ _ _ R (fun r _ => by simpa [itemsE] using iter_inner_AP sp r.1 r.2 hk)
+    have h2 := zipStar_pairs (fun r : Answer × List PyVal => r.1.action r.2) (fun r => r.1.p) R hne
+    simp only [finishRows, wantBatch, hk, DeliversN, unzipPairs, h1, h2, bind, Except.bind, pure, Except.pure]
+    refine ⟨_, rfl, ?_⟩
+    exact kwRowVal_view sp R _ _ _ _ (by simp [PyVal.items]) (by simp [PyVal.items])
+  case PM =>
+    have hin : ∀ r : Answer × List PyVal, inner sp r.1 r.2 = mkPmf sp.pmfTup r.1.pmf := by
+      intro r; obtain ⟨fmt, kw, lay, tup, ptup⟩ := sp; cases fmt <;> simp [Fmt.kind] at hk <;> simp [inner]
+    simp only [finishRows, wantBatch, hk, hin, bind, Except.bind]
+    cases hc : choicewRows s (R.map (·.2)) (R.map (fun r => mkPmf sp.pmfTup r.1.pmf)) with
+    | error e => simp [DeliversN]
+    | ok v =>
+      obtain ⟨s', A, P⟩ := v
+      have := choicewRows_ne _ _ _ _ _ _ hc (by simpa using hne) (by simpa using hne)
+      simp only [this, Bool.false_eq_true, ↓reduceIte, DeliversN, pure, Except.pure]
+      refine ⟨_, rfl, ?_⟩
+      exact kwRowVal_view sp R _ _ _ _ (by simp [PyVal.items]) (by simp [PyVal.items])
+
+
+
+
+theorem rowStd_eq_inner (sp : Spec) (ans : Answer) (as : List PyVal) (h : sp.fmt.hinted = false) :
+    rowStd sp ans as = inner sp ans as := by
+  obtain ⟨fmt, kw, lay, tup, ptup⟩ := sp
+  cases fmt <;> simp [Fmt.hinted] at h <;> simp [rowStd, inner, core, Answer.action]
+
+theorem firstValue_rowStd (sp : Spec) (ans : Answer) (as : List PyVal) (h : sp.fmt.hinted = true) :
+    firstValue (rowStd sp ans as) = .ok (inner sp ans as) := by
+  obtain ⟨fmt, kw, lay, tup, ptup⟩ := sp
+  cases fmt <;> simp [Fmt.hinted] at h <;> simp [rowStd, inner, core, Answer.action, firstValue]
+
+theorem parseRow_rows (sp : Spec) (st : State) (hkw : st.hasKw = sp.kw) (ref : Ref)
+    (R : Rows) (hne : R ≠ []) (hs : sp.kw = true → sameKeys R = true) :
+    DeliversN (parseRow st sp.pfmt (R.map (·.2)) (.list ref (renders sp R))) (wantBatch sp st.rng R) := by
+  have key : ∀ (body : List PyVal) (bodyV : PyVal), body = R.map (fun r => rowStd sp r.1 r.2) → bodyV.items = some body →
+      DeliversN
+        (Except.bind (if sp.pfmt.star then (do let b ← mapE firstValue body; pure (b, PyVal.list .tmp b)) else (pure (body, bodyV) : Except Err (List PyVal × PyVal)))
+          (fun (x : List PyVal × PyVal) => finishRows st.rng sp.pfmt.kind (R.map (·.2)) x.1 x.2 (kwRowVal sp R)))
+        (wantBatch sp st.rng R) := by
+    intro body bodyV hb hv
+    subst hb
+    cases hh : sp.fmt.hinted
+    · have : R.map (fun r => rowStd sp r.1 r.2) = R.map (fun r => inner sp r.1 r.2) := by
+        simp [rowStd_eq_inner sp _ _ hh]
+      simp only [Spec.pfmt, hh, Bool.false_eq_true, ↓reduceIte, pure, Except.pure, Except.bind]
+      rw [this] at hv ⊢
+      exact finishRows_spec sp st.rng R hne bodyV hv
+    · have h1 : mapE firstValue (R.map (fun r => rowStd sp r.1 r.2)) = .ok (R.map (fun r => inner sp r.1 r.2)) :=
+        mapE_map_ok _ _ _ R (fun r _ => firstValue_rowStd sp r.1 r.2 hh)
+      simp only [Spec.pfmt, hh, ↓reduceIte, h1, bind, Except.bind, pure, Except.pure]
+      exact finishRows_spec sp st.rng R hne (.list .tmp _) (by simp [PyVal.items])
+  cases hk : sp.kw
+  · have h1 := kws_nokw sp R hne hk
+    have h2 := body_nokw sp R hk
+    have := key (renders sp R) (.list ref (renders sp R)) h2 (by simp [PyVal.items])
+    unfold parseRow
+    simp only [itemsE, iter, hkw, hk, Bool.false_eq_true, ↓reduceIte, bind, Except.bind, pure, Except.pure, h1] at this ⊢
+    exact this
+  · have h1 := kws_kw sp R hne hk (hs hk)
+    have h2 := body_kw sp R hk
+    have := key _ (.list .tmp (R.map (fun r => rowStd sp r.1 r.2))) rfl (by simp [PyVal.items])
+    simp only [Except.bind] at h1
+    cases h3 : mapE (fun p => getLast p) (renders sp R) with
+    | error e => simp [h3] at h1
+    | ok kws =>
+      simp only [h3] at h1
+      unfold parseRow
+      simp only [itemsE, iter, hkw, hk, ↓reduceIte, bind, Except.bind, pure, Except.pure, h1, h2, h3] at this ⊢
+      exact this
+
+
+
+
+theorem keysEq_dicts (a b : PyVal) (ha : a.isDict = true) (hb : b.isDict = true) : keysEq a b = .ok (keysSame a b) := by
+  cases a <;> simp [PyVal.isDict] at ha
+  cases b <;> simp [PyVal.isDict] at hb
+  simp [keysEq, keysSame]
+
+@[simp] theorem isDict_dict (r : Ref) (ks : List String) (vs : List PyVal) : (PyVal.dict r ks vs).isDict = true := rfl
+
+/-- is one row's answer a dict? only without kwargs: a hinted answer, or a bare action that is a sparse dict -/
+theorem isDict_renderSingle (sp : Spec) (ans : Answer) (as : List PyVal) :
+    (renderSingle sp ans as).isDict =
+      (!sp.kw && (sp.fmt.hinted || (sp.fmt == .A && (ans.action as).isDict))) := by
+  obtain ⟨fmt, kw, lay, tup, ptup⟩ := sp
+  cases kw <;> cases fmt <;> simp [renderSingle, core, Fmt.hinted, mkPmf, Answer.action]
+
+theorem keysSame_hinted (sp : Spec) (a b : Answer) (as bs : List PyVal) (hk : sp.kw = false) (hh : sp.fmt.hinted = true) :
+    keysSame (renderSingle sp a as) (renderSingle sp b bs) = true := by
+  obtain ⟨fmt, kw, lay, tup, ptup⟩ := sp
+  simp only at hk; subst hk
+  cases fmt <;> simp [Fmt.hinted] at hh <;> simp [renderSingle, core, keysSame]
+
+
+
+
+theorem validOut_list (fx : Fixes) (ref : Ref) (xs : List PyVal) (x l : PyVal) (n : Nat)
+    (hx : xs.head? = some x) (hl : xs.getLast? = some l) (hn : n = xs.length)
+    (hd : xs.all PyVal.isDict = true → keysSame x l = true ∨ (fx.rowdict = true ∧ isHint x = false)) :
+    validOut fx (.list ref xs) n = true := by
+  cases xs with
+  | nil => simp at hx
+  | cons y ys =>
+    simp only [List.head?_cons, Option.some.injEq] at hx
+    subst hx
+    simp only [validOut, hl]
+    by_cases hall : (y :: ys).all PyVal.isDict = true
+    · have hy : y.isDict = true := by
+        have := List.all_eq_true.mp hall y (by simp); exact this
+      have hld : l.isDict = true := by
+        have hm : l ∈ (y :: ys) := List.mem_of_getLast? hl
+        exact List.all_eq_true.mp hall l hm
+      rw [if_pos hall, keysEq_dicts y l hy hld]
+      rcases hd hall with h | ⟨h1, h2⟩
+      · simp [h, hn]
+      · cases hks : keysSame y l <;> simp [h1, h2, hn]
+    · rw [if_neg hall]; simp [hn]
+
+
+
+theorem getIdx_list_zero (ref : Ref) (xs : List PyVal) (x : PyVal) (hx : xs.head? = some x) :
+    getIdx (.list ref xs) 0 = .ok x := by
+  cases xs <;> simp_all [getIdx]
+
+theorem getLast_list (ref : Ref) (xs : List PyVal) (l : PyVal) (hl : xs.getLast? = some l) :
+    getLast (.list ref xs) = .ok l := by
+  simp [getLast, hl]
+
+theorem lenE_of_hasLen (v : PyVal) (h : v.hasLen = true) : lenE v = .ok v.len := by simp [lenE, h]
+
+theorem batchOrder_rows (fx : Fixes) (ref : Ref) (xs : List PyVal) (x l : PyVal) (cs : List PyVal) (rows : List (List PyVal))
+    (probe : Except Err PyVal) (pp : PyVal)
+    (hx : xs.head? = some x) (hl : xs.getLast? = some l) (hn : rows.length = xs.length)
+    (hd : xs.all PyVal.isDict = true → keysSame x l = true ∨ (fx.rowdict = true ∧ isHint x = false))
+    (hprobe : probe = .ok pp) (hpl : lenE pp = .ok 1) :
+    batchOrder fx probe (.list ref xs) (.batch cs rows) 1 = .ok .row := by
+  have h0 := getIdx_list_zero ref xs x hx
+  have h1 := getLast_list ref xs l hl
+  have hfin : ∀ o : Option BLayout, (o = some .row ∨ o = Option.none) →
+      (match o with
+        | some lay => (pure lay : Except Err BLayout)
+        | Option.none => do let pp ← probe; let l ← lenE pp; pure (if l = 1 then .row else .col)) = .ok .row := by
+    intro o ho
+    rcases ho with rfl | rfl
+    · rfl
+    · simp [hprobe, hpl, bind, Except.bind, pure, Except.pure]
+  unfold batchOrder
+  simp only [bind, Except.bind]
+  have hpre : batchOrderPre fx (.list ref xs) (.batch cs rows) 1 = .ok (some .row) ∨
+      batchOrderPre fx (.list ref xs) (.batch cs rows) 1 = .ok Option.none := by
+    unfold batchOrderPre
+    have hpl' : lenE (PyVal.list ref xs) = .ok xs.length := by simp [lenE, PyVal.hasLen, PyVal.len]
+    simp only [allDicts, iter, bind, Except.bind, pure, Except.pure, h0, h1,
+      PyVal.isDict, Bool.false_or, hpl']
+    by_cases hall : xs.all PyVal.isDict = true
+    · have hxd : x.isDict = true := List.all_eq_true.mp hall x (List.mem_of_head? hx)
+      have hld : l.isDict = true := List.all_eq_true.mp hall l (List.mem_of_getLast? hl)
+      have hxl : x.hasLen = true := by cases x <;> simp_all [PyVal.isDict, PyVal.hasLen]
+      simp only [hall, ↓reduceIte, keysEq_dicts x l hxd hld]
+      rcases hd hall with h | ⟨h1', h2'⟩
+      · simp [h]
+      · cases hks : keysSame x l
+        · simp only [lenE_of_hasLen x hxl]
+          by_cases hq : xs.length = x.len <;> simp [h1', h2', hxl, hn, hq]
+        · simp
+    · have hall' : xs.all PyVal.isDict = false := by simpa using hall
+      simp only [hall', Bool.false_eq_true, ↓reduceIte]
+      cases hxl : x.hasLen
+      · simp
+      · simp only [lenE_of_hasLen x hxl]
+        by_cases hq : xs.length = x.len <;> simp [hn, hq]
+  rcases hpre with h | h
+  · rw [h]; exact hfin _ (Or.inl rfl)
+  · rw [h]; exact hfin _ (Or.inr rfl)
+
+
+
+
+theorem zipWithAns_snd (pol : Policy) (cs : List PyVal) (rows : List (List PyVal)) (h : cs.length = rows.length) :
+    (zipWithAns pol cs rows).map (·.2) = rows := by
+  induction cs generalizing rows with
+  | nil => cases rows <;> simp_all [zipWithAns]
+  | cons c cs ih =>
+    cases rows with
+    | nil => simp at h
+    | cons a as => simp [zipWithAns, ih as (by simpa using h)]
+
+theorem zipWithAns_length (pol : Policy) (cs : List PyVal) (rows : List (List PyVal)) (h : cs.length = rows.length) :
+    (zipWithAns pol cs rows).length = rows.length := by
+  have := congrArg List.length (zipWithAns_snd pol cs rows h)
+  simpa using this
+
+theorem perRow_scripted (sp : Spec) (pol : Policy) (cs : List PyVal) (rows : List (List PyVal)) :
+    perRow (scripted sp pol) cs rows = .ok (renders sp (zipWithAns pol cs rows)) := by
+  induction cs generalizing rows with
+  | nil => cases rows <;> simp [perRow, zipWithAns, renders, pure, Except.pure]
+  | cons c cs ih =>
+    cases rows with
+    | nil => simp [perRow, zipWithAns, renders, pure, Except.pure]
+    | cons a as =>
+      have := ih as
+      simp [perRow, zipWithAns, renders, scripted, bind, Except.bind, pure, Except.pure] at this ⊢
+      simp [this]
+
+theorem zipWithAns_head (pol : Policy) (c : PyVal) (cs : List PyVal) (a : List PyVal) (rows : List (List PyVal)) :
+    zipWithAns pol (c :: cs) (a :: rows) = (pol c a, a) :: zipWithAns pol cs rows := rfl
+
+
+
+
+/-- first-call detection on a row-major answer (given that `batch_order` says 'row') -/
+theorem detect_rows (fx : Fixes) (L : Learner) (sp : Spec) (st1 : State) (cs : List PyVal) (as0 : List PyVal) (rows' : List (List PyVal))
+    (a0 : Answer) (R' : Rows) (ref : Ref) (m : Nat)
+    (hl : st1.layout = Option.none)
+    (hf : firstRowOK fx sp a0 as0 = true)
+    (hbo : batchOrder fx (do let a1 ← firstOf (.batch cs (as0 :: rows')); let r ← safeCall fx L (some m) a1; pure r.1)
+        (.list ref (renders sp ((a0, as0) :: R'))) (.batch cs (as0 :: rows')) m = .ok .row) :
+    detect fx L st1 (.batch cs (as0 :: rows')) (.list ref (renders sp ((a0, as0) :: R'))) m =
+      .ok { st1 with layout := some .row, hasKw := sp.kw, fmt := some sp.pfmt } := by
+  have hkw := lastIsDict_renderSingle fx sp a0 as0 hf
+  have hfr := firstRow_not_renderSingle sp a0 as0
+  have hpf := predFormat_rowStd fx sp a0 as0 hf
+  have hk : hasKwargs (.list ref (renders sp ((a0, as0) :: R'))) .row = sp.kw := by
+    simpa [hasKwargs, lastIsDict, renders, getIdx, bind, Except.bind] using hkw
+  have hfr' : firstRow (.list ref (renders sp ((a0, as0) :: R'))) .row sp.kw = .ok (rowStd sp a0 as0) := by
+    simpa [firstRow, renders, getIdx, bind, Except.bind, pure, Except.pure] using hfr
+  unfold detect
+  simp only [bind, Except.bind, pure, Except.pure] at hbo
+  simp only [hl, bind, Except.bind, pure, Except.pure, hbo, hk, hfr', hpf]
+
+
+
+
+/-- the dict-row side condition in the form `validOut` / `batch_order` need it -/
+theorem dictRows_cond (fx : Fixes) (sp : Spec) (a0 : Answer) (as0 : List PyVal) (R' : Rows) (l : Answer × List PyVal)
+    (hl : ((a0, as0) :: R').getLast? = some l)
+    (hf : firstRowOK fx sp a0 as0 = true) (hd : dictRowsOK fx sp ((a0, as0) :: R') = true) :
+    (renders sp ((a0, as0) :: R')).all PyVal.isDict = true →
+      keysSame (renderSingle sp a0 as0) (renderSingle sp l.1 l.2) = true ∨
+        (fx.rowdict = true ∧ isHint (renderSingle sp a0 as0) = false) := by
+  intro hall
+  have h0 : (renderSingle sp a0 as0).isDict = true := by
+    have := List.all_eq_true.mp hall (renderSingle sp a0 as0) (by simp [renders])
+    exact this
+  have hlm : l ∈ ((a0, as0) :: R') := List.mem_of_getLast? hl
+  have h1 : (renderSingle sp l.1 l.2).isDict = true := by
+    have := List.all_eq_true.mp hall (renderSingle sp l.1 l.2) (by simp only [renders, List.mem_map]; exact ⟨l, hlm, rfl⟩)
+    exact this
+  rw [isDict_renderSingle] at h0 h1
+  simp only [Bool.and_eq_true, Bool.not_eq_true', Bool.or_eq_true, beq_iff_eq] at h0 h1
+  obtain ⟨hk, h0⟩ := h0
+  rcases h0 with hh | ⟨hA, hd0⟩
+  · exact Or.inl (keysSame_hinted sp a0 l.1 as0 l.2 hk hh)
+  · have hd1 : (l.1.action l.2).isDict = true := by
+      rcases h1.2 with hh | ⟨_, h⟩
+      · rw [hA] at hh; simp [Fmt.hinted] at hh
+      · exact h
+    have hr0 : renderSingle sp a0 as0 = a0.action as0 := by
+      obtain ⟨fmt, kw, lay, tup, ptup⟩ := sp
+      simp only at hk hA; subst hk; subst hA
+      simp [renderSingle, core, Answer.action]
+    have hr1 : renderSingle sp l.1 l.2 = l.1.action l.2 := by
+      obtain ⟨fmt, kw, lay, tup, ptup⟩ := sp
+      simp only at hk hA; subst hk; subst hA
+      simp [renderSingle, core, Answer.action]
+    rw [hr0, hr1]
+    simp only [dictRowsOK, hA, hk, Bool.or_eq_true, List.head?_cons, hl] at hd
+    simp only [beq_self_eq_true, Bool.not_false, Bool.and_self, Bool.not_true, hd0, hd1] at hd
+    simp only [Bool.false_eq_true, or_false, false_or] at hd
+    rcases hd with hr | hks
+    · right
+      refine ⟨hr, ?_⟩
+      simp only [firstRowOK, hA, Bool.and_eq_true] at hf
+      have := hf.2.1.1.2
+      simpa using this
+    · exact Or.inl hks
+
+
+
+
+/-- put the new rng state into the SafeLearner state -/
+def liftSt (f : Nat → State) (x : Except Err (Result × Nat)) : Except Err (Result × State) :=
+  match x with
+  | .ok v => .ok (v.1, f v.2)
+  | .error e => .error e
+
+theorem deliversN_to_delivers (x : Except Err (Result × Nat)) (w : Except Err (BatchView × Nat)) (f : Nat → State)
+    (h : DeliversN x w) : Delivers (liftSt f x) w f := by
+  cases w with
+  | error e =>
+    simp only [DeliversN] at h
+    subst h
+    simp [Delivers, liftSt]
+  | ok v =>
+    obtain ⟨v, s'⟩ := v
+    simp only [DeliversN] at h
+    obtain ⟨r, hr, hv⟩ := h
+    subst hr
+    exact ⟨r, rfl, hv⟩
+
+theorem predictCore_row (fx : Fixes) (sp : Spec) (pol : Policy) (st : State) (cs : List PyVal) (rows : List (List PyVal))
+    (hlay : sp.layout = .row) (hinv : Inv sp true st)
+    (hlen : cs.length = rows.length) (hne : rows ≠ [])
+    (hs : sp.kw = true → sameKeys (zipWithAns pol cs rows) = true)
+    (hfirst : st.layout = Option.none → ∀ r R', zipWithAns pol cs rows = r :: R' →
+        firstRowOK fx sp r.1 r.2 = true ∧ dictRowsOK fx sp (r :: R') = true) :
+    Delivers (predictCore fx (scripted sp pol) st (.batch cs rows)) (wantBatch sp st.rng (zipWithAns pol cs rows))
+      (stAfter sp true st) := by
+  -- the rows
+  obtain ⟨c0, cs', rfl⟩ : ∃ c0 cs', cs = c0 :: cs' := by
+    cases cs with
+    | nil => cases rows <;> simp_all
+    | cons c cs => exact ⟨c, cs, rfl⟩
+  obtain ⟨as0, rows', rfl⟩ : ∃ a r, rows = a :: r := by
+    cases rows with
+    | nil => exact absurd rfl hne
+    | cons a r => exact ⟨a, r, rfl⟩
+  have hsnd := zipWithAns_snd pol (c0 :: cs') (as0 :: rows') hlen
+  have hRlen := zipWithAns_length pol (c0 :: cs') (as0 :: rows') hlen
+  set R := zipWithAns pol (c0 :: cs') (as0 :: rows') with hR
+  have hRcons : R = (pol c0 as0, as0) :: zipWithAns pol cs' rows' := rfl
+  have hRne : R ≠ [] := by rw [hRcons]; simp
+  have hLbatch : scripted sp pol (.batch (c0 :: cs') (as0 :: rows')) = .ok (.list (.lrn 0) (renders sp R)) := by
+    simp [scripted, hlay, renders, hR]
+  have hparse : ∀ st2 : State, st2.hasKw = sp.kw → st2.rng = st.rng →
+      DeliversN (parseRow st2 sp.pfmt (as0 :: rows') (.list (.lrn 0) (renders sp R))) (wantBatch sp st.rng R) := by
+    intro st2 h1 h2
+    have := parseRow_rows sp st2 h1 (.lrn 0) R hRne hs
+    rw [hsnd, h2] at this
+    exact this
+  rcases hinv with ⟨hm, hl⟩ | hst
+  · -- first call
+    obtain ⟨hf, hd⟩ := hfirst hl _ _ hRcons
+    obtain ⟨l, hlast⟩ : ∃ l, R.getLast? = some l := by
+      cases h : R.getLast? with
+      | none => simp [List.getLast?_eq_none_iff] at h; exact absurd h hRne
+      | some l => exact ⟨l, rfl⟩
+    have hcond := dictRows_cond fx sp (pol c0 as0) as0 _ l (by rw [← hRcons]; exact hlast) hf (by rw [← hRcons]; exact hd)
+    rw [← hRcons] at hcond
+    have hhead : (renders sp R).head? = some (renderSingle sp (pol c0 as0) as0) := by simp [renders, hRcons]
+    have hlast' : (renders sp R).getLast? = some (renderSingle sp l.1 l.2) := by simp [renders, List.getLast?_map, hlast]
+    have hlen' : (c0 :: cs').length = (renders sp R).length := by simp [renders, hRlen, hlen]
+    have hvalid := validOut_list fx (.lrn 0) (renders sp R) _ _ (c0 :: cs').length hhead hlast' hlen' hcond
+    have hbo := batchOrder_rows fx (.lrn 0) (renders sp R) _ _ (c0 :: cs') (as0 :: rows')
+      (do let a1 ← firstOf (.batch (c0 :: cs') (as0 :: rows')); let r ← safeCall fx (scripted sp pol) (some 1) a1; pure r.1)
+      (.list (.lrn 0) (renders sp (zipWithAns pol [c0] [as0]))) hhead hlast' (by simp [renders, hRlen]) hcond
+      (by simp [firstOf, safeCall, scripted, hlay, renders, bind, Except.bind, pure, Except.pure])
+      (by simp [lenE, PyVal.hasLen, PyVal.len, renders, zipWithAns])
+    have hdet := detect_rows fx (scripted sp pol) sp { st with method := some 1 } (c0 :: cs') as0 rows' (pol c0 as0)
+      (zipWithAns pol cs' rows') (.lrn 0) 1 hl hf (by rw [← hRcons]; exact hbo)
+    rw [← hRcons] at hdet
+    have hp := hparse { st with method := some 1, layout := some .row, hasKw := sp.kw, fmt := some sp.pfmt } rfl rfl
+    have := deliversN_to_delivers _ _ (stAfter sp true st) hp
+    simp only [predictCore, safeCall, hm, hLbatch, hvalid, ↓reduceIte, bind, Except.bind, pure, Except.pure, hdet, parse]
+    have hst : ∀ s, stAfter sp true st s = { st with rng := s, method := some 1, layout := some BLayout.row, hasKw := sp.kw, fmt := some sp.pfmt } := by intro s; simp [stAfter, hlay]
+    generalize parseRow _ sp.pfmt (as0 :: rows') (list (Ref.lrn 0) (renders sp R)) = x at this ⊢
+    cases x with
+    | error e => simpa [liftSt] using this
+    | ok v => simpa [liftSt, hst] using this
+  · obtain ⟨hm, hl, hk, hf⟩ := inv_after hst
+    simp [hlay] at hm hl
+    have hp := hparse st hk rfl
+    have := deliversN_to_delivers _ _ (stAfter sp true st) hp
+    simp only [predictCore, safeCall, hm, hLbatch, bind, Except.bind, pure, Except.pure, detect, hl, parse, hf]
+    have hsteq : ({ st with method := some 1, layout := some BLayout.row, fmt := some sp.pfmt } : State) = st := by
+      cases st; simp_all
+    rw [hsteq]
+    have hst' : ∀ s, stAfter sp true st s = { st with rng := s, method := some 1, layout := some BLayout.row, fmt := some sp.pfmt } := by intro s; simp [stAfter, hlay, hk]
+    generalize parseRow _ sp.pfmt (as0 :: rows') (list (Ref.lrn 0) (renders sp R)) = x at this ⊢
+    cases x with
+    | error e => simpa [liftSt] using this
+    | ok v => simpa [liftSt, hst'] using this
+
+
+
+
+theorem batchOrder_m2 (fx : Fixes) (probe : Except Err PyVal) (pred : PyVal) (arg : Arg) :
+    batchOrder fx probe pred arg 2 = .ok .row := by
+  simp [batchOrder, batchOrderPre, bind, Except.bind, pure, Except.pure]
+
+theorem predictCore_perrow (fx : Fixes) (sp : Spec) (pol : Policy) (st : State) (cs : List PyVal) (rows : List (List PyVal))
+    (hlay : sp.layout = .single) (hinv : Inv sp true st)
+    (hlen : cs.length = rows.length) (hne : rows ≠ [])
+    (hs : sp.kw = true → sameKeys (zipWithAns pol cs rows) = true)
+    (hfirst : st.layout = Option.none → ∀ r R', zipWithAns pol cs rows = r :: R' →
+        firstRowOK fx sp r.1 r.2 = true ∧ dictRowsOK fx sp (r :: R') = true) :
+    Delivers (predictCore fx (scripted sp pol) st (.batch cs rows)) (wantBatch sp st.rng (zipWithAns pol cs rows))
+      (stAfter sp true st) := by
+  obtain ⟨c0, cs', rfl⟩ : ∃ c0 cs', cs = c0 :: cs' := by
+    cases cs with
+    | nil => cases rows <;> simp_all
+    | cons c cs => exact ⟨c, cs, rfl⟩
+  obtain ⟨as0, rows', rfl⟩ : ∃ a r, rows = a :: r := by
+    cases rows with
+    | nil => exact absurd rfl hne
+    | cons a r => exact ⟨a, r, rfl⟩
+  have hsnd := zipWithAns_snd pol (c0 :: cs') (as0 :: rows') hlen
+  have hRlen := zipWithAns_length pol (c0 :: cs') (as0 :: rows') hlen
+  set R := zipWithAns pol (c0 :: cs') (as0 :: rows') with hR
+  have hRcons : R = (pol c0 as0, as0) :: zipWithAns pol cs' rows' := rfl
+  have hRne : R ≠ [] := by rw [hRcons]; simp
+  have hLbatch : scripted sp pol (.batch (c0 :: cs') (as0 :: rows')) = .error .learner := by
+    simp [scripted, hlay]
+  have hper := perRow_scripted sp pol (c0 :: cs') (as0 :: rows')
+  rw [← hR] at hper
+  have hrne : (renders sp R).isEmpty = false := by rw [hRcons]; simp [renders]
+  have hm2 : method2 (scripted sp pol) (c0 :: cs') (as0 :: rows') = .ok (.list .tmp (renders sp R)) := by
+    simp [method2, hper, hrne, bind, Except.bind, pure, Except.pure]
+  have hparse : ∀ st2 : State, st2.hasKw = sp.kw → st2.rng = st.rng →
+      DeliversN (parseRow st2 sp.pfmt (as0 :: rows') (.list .tmp (renders sp R))) (wantBatch sp st.rng R) := by
+    intro st2 h1 h2
+    have := parseRow_rows sp st2 h1 .tmp R hRne hs
+    rw [hsnd, h2] at this
+    exact this
+  have hstA : ∀ s, stAfter sp true st s = { st with rng := s, method := some 2, layout := some BLayout.row, hasKw := sp.kw, fmt := some sp.pfmt } := by
+    intro s; simp [stAfter, hlay]
+  rcases hinv with ⟨hm, hl⟩ | hst
+  · obtain ⟨hf, hd⟩ := hfirst hl _ _ hRcons
+    obtain ⟨l, hlast⟩ : ∃ l, R.getLast? = some l := by
+      cases h : R.getLast? with
+      | none => simp [List.getLast?_eq_none_iff] at h; exact absurd h hRne
+      | some l => exact ⟨l, rfl⟩
+    have hcond := dictRows_cond fx sp (pol c0 as0) as0 _ l (by rw [← hRcons]; exact hlast) hf (by rw [← hRcons]; exact hd)
+    rw [← hRcons] at hcond
+    have hhead : (renders sp R).head? = some (renderSingle sp (pol c0 as0) as0) := by simp [renders, hRcons]
+    have hlast' : (renders sp R).getLast? = some (renderSingle sp l.1 l.2) := by simp [renders, List.getLast?_map, hlast]
+    have hlen' : (c0 :: cs').length = (renders sp R).length := by simp [renders, hRlen, hlen]
+    have hvalid := validOut_list fx .tmp (renders sp R) _ _ (c0 :: cs').length hhead hlast' hlen' hcond
+    have hdet := detect_rows fx (scripted sp pol) sp { st with method := some 2 } (c0 :: cs') as0 rows' (pol c0 as0)
+      (zipWithAns pol cs' rows') .tmp 2 hl hf (batchOrder_m2 _ _ _ _)
+    rw [← hRcons] at hdet
+    have hp := hparse { st with method := some 2, layout := some .row, hasKw := sp.kw, fmt := some sp.pfmt } rfl rfl
+    have := deliversN_to_delivers _ _ (stAfter sp true st) hp
+    simp only [predictCore, safeCall, hm, hLbatch, hm2, hvalid, ↓reduceIte, bind, Except.bind, pure, Except.pure, hdet, parse]
+    generalize parseRow _ sp.pfmt (as0 :: rows') (list .tmp (renders sp R)) = x at this ⊢
+    cases x with
+    | error e => simpa [liftSt] using this
+    | ok v => simpa [liftSt, hstA] using this
+  · obtain ⟨hm, hl, hk, hf⟩ := inv_after hst
+    rw [hlay] at hm hl
+    replace hm : st.method = some 2 := by rw [hm]; rfl
+    replace hl : st.layout = some BLayout.row := by rw [hl]; rfl
+    clear hst
+    have hp := hparse st hk rfl
+    have := deliversN_to_delivers _ _ (stAfter sp true st) hp
+    simp only [predictCore, safeCall, hm, hm2, bind, Except.bind, pure, Except.pure, detect, hl, parse, hf]
+    have hsteq : ({ st with method := some 2, layout := some BLayout.row, fmt := some sp.pfmt } : State) = st := by
+      cases st; simp_all
+    rw [hsteq]
+    have hst' : ∀ s, stAfter sp true st s = { st with rng := s, method := some 2, layout := some BLayout.row, fmt := some sp.pfmt } := by
+      intro s; simp [stAfter, hlay, hk]
+    generalize parseRow _ sp.pfmt (as0 :: rows') (list .tmp (renders sp R)) = x at this ⊢
+    cases x with
+    | error e => simpa [liftSt] using this
+    | ok v => simpa [liftSt, hst'] using this
+
+
+
+
+theorem seq_facts {v : PyVal} {xs : List PyVal} (h : v.items = some xs) :
+    v.isDict = false ∧ v.hasLen = true ∧ v.isStr = false ∧ v.len = xs.length ∧ (∀ k, getIdx v k = (match xs[k]? with | some x => .ok x | Option.none => .error .index)) := by
+  cases v <;> simp [PyVal.items] at h <;> subst h <;> simp [PyVal.isDict, PyVal.hasLen, PyVal.isStr, PyVal.len, getIdx] <;> intro k <;> rfl
+
+theorem possiblePmf_items (v : PyVal) (pmf as : List PyVal) (hv : v.items = some pmf) (h : validPmf pmf as = true) :
+    possiblePmf v as = true := by
+  have := possiblePmf_valid true pmf as h
+  simpa [possiblePmf, hv] using this
+
+/-- un-hinted PMF, in any freshly built sequence (the learner's, or the row `first_row` assembles from columns) -/
+theorem predFormat_PM_gen (fx : Fixes) (v : PyVal) (pmf as : List PyVal) (hi : v.items = some pmf) (hf : freshSeq v = true)
+    (hne : as ≠ []) (hlrn : ∀ a ∈ as, isLrn a = false) (hv : validPmf pmf as = true)
+    (hfresh : ∀ x y, pmf = [x, y] → as.any (fun a => pyIs x a) = false)
+    (hshort : fx.short = true ∨ 2 ≤ pmf.length) :
+    predFormat fx v (some as) = .ok ⟨.PM, false⟩ := by
+  have hp := possiblePmf_items v pmf as hi hv
+  have hid := any_pyIs_freshSeq v as hf hlrn
+  have hid' : ¬ ∃ a ∈ as, pyIs v a = true := by simpa using hid
+  have hlen : pmf.length = as.length := validPmf_length hv
+  have hemp : as.isEmpty = false := by cases as <;> simp_all
+  obtain ⟨f1, f2, f3, f4, f5⟩ := seq_facts hi
+  unfold predFormat
+  simp only [f1, f2, f3, f4, f5, Option.getD_some, hemp]
+  rcases pmf with _ | ⟨x, _ | ⟨y, _ | ⟨z, r⟩⟩⟩
+  · cases as <;> simp_all
+  · rcases hshort with hs | hs
+    · simp [hs, hp, hid', bind, Except.bind, pure, Except.pure]
+    · simp at hs
+  · have := hfresh x y rfl
+    cases fx.short <;> simp [this, hp, hid', bind, Except.bind, pure, Except.pure]
+  · have h3 : ¬ (r.length + 1 + 1 + 1 < 2) := by omega
+    cases fx.short <;> simp [hp, hid', h3, bind, Except.bind, pure, Except.pure]
+
+/-- the hinted forms, whoever built the dict -/
+theorem predFormat_dA_gen (fx : Fixes) (r : Ref) (a : PyVal) (as : List PyVal) :
+    predFormat fx (.dict r ["action"] [a]) (some as) = .ok ⟨.AX, true⟩ := by
+  simp [predFormat, PyVal.isDict, hasKey, pure, Except.pure]
+
+theorem predFormat_dAP_gen (fx : Fixes) (r : Ref) (v a p : PyVal) (as : List PyVal) (hv : v.items = some [a, p]) :
+    predFormat fx (.dict r ["action_prob"] [v]) (some as) = .ok ⟨.AP, true⟩ := by
+  obtain ⟨f1, f2, f3, f4, f5⟩ := seq_facts hv
+  simp [predFormat, PyVal.isDict, hasKey, getKey, lookupKey, f2, f4, bind, Except.bind, pure, Except.pure]
+
+theorem predFormat_dPM_gen (fx : Fixes) (r : Ref) (v : PyVal) (pmf : List PyVal) (as : List PyVal) (hv : v.items = some pmf)
+    (hK : as ≠ []) (hl : pmf.length = as.length) :
+    predFormat fx (.dict r ["pmf"] [v]) (some as) = .ok ⟨.PM, true⟩ := by
+  obtain ⟨f1, f2, f3, f4, f5⟩ := seq_facts hv
+  cases as <;> simp_all [predFormat, PyVal.isDict, hasKey, getKey, lookupKey, bind, Except.bind, pure, Except.pure]
+
+
+
+
+/-- all rows have K entries -/
+def Rect (K : Nat) (M : List (List PyVal)) : Prop := ∀ r ∈ M, r.length = K
+
+theorem rect_step {K : Nat} {M : List (List PyVal)} (h : Rect (K + 1) M) :
+    ∃ hs, heads M = some hs ∧ hs.length = M.length ∧ Rect K (tails M) ∧ (tails M).length = M.length := by
+  induction M with
+  | nil => exact ⟨[], rfl, rfl, by intro r hr; simp [tails] at hr, rfl⟩
+  | cons r M ih =>
+    have hr : r.length = K + 1 := h r (by simp)
+    obtain ⟨hs, h1, h2, h3, h4⟩ := ih (fun r' hr' => h r' (by simp [hr']))
+    cases r with
+    | nil => simp at hr
+    | cons x t =>
+      refine ⟨x :: hs, by simp [heads, h1], by simp [h2], ?_, by simp [tails, h4]⟩
+      intro r' hr'
+      simp only [tails, List.mem_cons] at hr'
+      rcases hr' with rfl | hr'
+      · simpa using hr
+      · exact h3 r' hr'
+
+theorem zipStarAux_cons (K : Nat) : ∀ (r : List PyVal) (M : List (List PyVal)), r.length = K → M ≠ [] → Rect K M →
+    zipStarAux K (r :: M) = List.zipWith (fun x c => x :: c) r (zipStarAux K M) := by
+  induction K with
+  | zero => intro r M hr _ _; cases r <;> simp_all [zipStarAux]
+  | succ K ih =>
+    intro r M hr hM hrect
+    cases r with
+    | nil => simp at hr
+    | cons x r' =>
+      obtain ⟨hs, h1, h2, h3, h4⟩ := rect_step hrect
+      have hM' : tails M ≠ [] := by
+        intro h0; rw [h0] at h4; exact hM (List.length_eq_zero_iff.mp h4.symm)
+      have := ih r' (tails M) (by simpa using hr) hM' h3
+      cases M with
+      | nil => exact absurd rfl hM
+      | cons m M0 =>
+        simp only [zipStarAux, heads, tails, h1, Option.map_some, this, List.zipWith_cons_cons]
+
+
+
+theorem zipStarAux_single (r : List PyVal) : zipStarAux r.length [r] = r.map (fun x => [x]) := by
+  induction r with
+  | nil => simp [zipStarAux]
+  | cons x r ih => simp [zipStarAux, heads, tails, ih]
+
+theorem zipStarAux_length (K : Nat) : ∀ (M : List (List PyVal)), M ≠ [] → Rect K M →
+    (zipStarAux K M).length = K ∧ ∀ c ∈ zipStarAux K M, c.length = M.length := by
+  induction K with
+  | zero => intro M _ _; simp [zipStarAux]
+  | succ K ih =>
+    intro M hM hrect
+    obtain ⟨hs, h1, h2, h3, h4⟩ := rect_step hrect
+    have hM' : tails M ≠ [] := by
+      intro h0; rw [h0] at h4; exact hM (List.length_eq_zero_iff.mp h4.symm)
+    obtain ⟨i1, i2⟩ := ih (tails M) hM' h3
+    cases M with
+    | nil => exact absurd rfl hM
+    | cons m M0 =>
+      simp only [zipStarAux, h1]
+      refine ⟨by simp [i1], ?_⟩
+      intro c hc
+      simp only [List.mem_cons] at hc
+      rcases hc with rfl | hc
+      · exact h2
+      · rw [i2 c hc, h4]
+
+theorem heads_zipWith_cons (r : List PyVal) (C : List (List PyVal)) (h : r.length = C.length) :
+    heads (List.zipWith (fun x c => x :: c) r C) = some r ∧ tails (List.zipWith (fun x c => x :: c) r C) = C := by
+  induction r generalizing C with
+  | nil => cases C <;> simp_all [heads, tails]
+  | cons x r ih =>
+    cases C with
+    | nil => simp at h
+    | cons c C =>
+      obtain ⟨i1, i2⟩ := ih C (by simpa using h)
+      simp [heads, tails, i1, i2]
+
+/-- transposing twice gives the table back (n ≥ 1 rows of K ≥ 1 entries) -/
+theorem zipStar_zipStar (K : Nat) (hK : 0 < K) : ∀ (M : List (List PyVal)), M ≠ [] → Rect K M → zipStar (zipStar M) = M := by
+  intro M
+  induction M with
+  | nil => intro h; exact absurd rfl h
+  | cons r M ih =>
+    intro _ hrect
+    have hr : r.length = K := hrect r (by simp)
+    have hrect' : Rect K M := fun r' hr' => hrect r' (by simp [hr'])
+    by_cases hM : M = []
+    · subst hM
+      simp only [zipStar, zipStarAux_single]
+      cases r with
+      | nil => simp at hr; omega
+      | cons x r' =>
+        have h1 : heads ((x :: r').map (fun y => [y])) = some (x :: r') := by
+          have : ∀ l : List PyVal, heads (l.map (fun y => [y])) = some l := by
+            intro l; induction l with
+            | nil => rfl
+            | cons y l ih => simp [heads, ih]
+          exact this _
+        simp only [List.map_cons, List.length_cons, List.length_nil, zipStarAux, Nat.zero_add] at h1 ⊢
+        simp [h1]
+    · have e1 : zipStar (r :: M) = List.zipWith (fun x c => x :: c) r (zipStar M) := by
+        have hz : zipStar M = zipStarAux K M := by
+          cases M with
+          | nil => exact absurd rfl hM
+          | cons m M0 => simp [zipStar, hrect' m (by simp)]
+        rw [hz]
+        simp only [zipStar, hr]
+        exact zipStarAux_cons K r M hr hM hrect'
+      have hC := zipStarAux_length K M hM hrect'
+      have hz : zipStar M = zipStarAux K M := by
+        cases M with
+        | nil => exact absurd rfl hM
+        | cons m M0 => simp [zipStar, hrect' m (by simp)]
+      rw [← hz] at hC
+      obtain ⟨hc1, hc2⟩ := hC
+      have hih := ih hM hrect'
+      rw [e1]
+      obtain ⟨g1, g2⟩ := heads_zipWith_cons r (zipStar M) (by rw [hc1, hr])
+      -- the first column
+      cases hcz : zipStar M with
+      | nil => rw [hcz] at hc1; simp at hc1; omega
+      | cons c0 C =>
+        cases r with
+        | nil => simp at hr; omega
+        | cons x r' =>
+          rw [hcz] at g1 g2 hih
+          simp only [List.zipWith_cons_cons, zipStar, List.length_cons, zipStarAux] at g1 g2 hih ⊢
+          simp only [g1, g2]
+          rw [hih]
+
+
+
+
+theorem zipStar_singles {α} (f : α → PyVal) (xs : List α) (hne : xs ≠ []) :
+    zipStar (xs.map (fun x => [f x])) = [xs.map f] := by
+  have h1 : ∀ ys : List α, heads (ys.map (fun x => [f x])) = some (ys.map f) := by
+    intro ys; induction ys with
+    | nil => simp [heads]
+    | cons y ys ih => simp [heads, ih]
+  cases xs with
+  | nil => exact absurd rfl hne
+  | cons x xs =>
+    have := h1 (x :: xs)
+    simp only [List.map_cons] at this
+    simp [zipStar, zipStarAux, this]
+
+/-- the value a column-major learner puts per row into the hinted column -/
+def hintVal (sp : Spec) (ans : Answer) (as : List PyVal) : PyVal :=
+  match sp.fmt with
+  | .dAP => mkSeq sp.tup [ans.action as, ans.p]
+  | .dPM => mkPmf sp.pmfTup ans.pmf
+  | _ => ans.action as
+
+/-- the columns of a column-major answer (without the kwargs column) -/
+def colsOf (sp : Spec) (R : Rows) : List PyVal :=
+  match sp.fmt with
+  | .A => [.list (.lrn 0) (R.map (fun r => r.1.action r.2))]
+  | .AP => [.list (.lrn 0) (R.map (fun r => r.1.action r.2)), .list (.lrn 0) (R.map (fun r => r.1.p))]
+  | .PM => (zipStar (R.map (fun r => r.1.pmf))).map (fun c => PyVal.list (.lrn 0) c)
+  | _ => [.dict (.lrn 0) [sp.fmt.hint] [.list (.lrn 0) (R.map (fun r => hintVal sp r.1 r.2))]]
+
+theorem renderCol_eq (sp : Spec) (R : Rows) (hne : R ≠ []) :
+    renderCol sp R =
+      (if sp.kw then mkSeq sp.tup (colsOf sp R ++ [kwCols R])
+       else if sp.fmt.hinted then (colsOf sp R).getD 0 .none
+       else mkSeq sp.tup (colsOf sp R)) := by
+  obtain ⟨fmt, kw, lay, tup, ptup⟩ := sp
+  have hs := zipStar_singles (fun r : Answer × List PyVal => r.1.action r.2) R hne
+  have hp := zipStar_pairs (fun r : Answer × List PyVal => r.1.action r.2) (fun r => r.1.p) R hne
+  cases fmt <;> simp [renderCol, colsOf, core, Fmt.hinted, Fmt.hint, hintVal, Answer.action, List.map_map, Function.comp_def] at hs hp ⊢
+  all_goals first | simp [hs] | simp [hp]
+
+
+
+
+/-- `choicew` looks at a PMF only through its entries -/
+theorem choicew_items (s : Nat) (as : List PyVal) (v w : PyVal) (xs : List PyVal)
+    (hv : v.items = some xs) (hw : w.items = some xs) : choicew s as v = choicew s as w := by
+  cases v <;> simp [PyVal.items] at hv <;> cases w <;> simp [PyVal.items] at hw <;> subst hv <;> subst hw <;> simp [choicew, PyVal.items]
+
+theorem choicewRows_items (s : Nat) (rows : List (List PyVal)) (vs ws : List PyVal) (xss : List (List PyVal))
+    (hv : vs.map PyVal.items = xss.map some) (hw : ws.map PyVal.items = xss.map some) :
+    choicewRows s rows vs = choicewRows s rows ws := by
+  induction rows generalizing s vs ws xss with
+  | nil => cases vs <;> cases ws <;> simp [choicewRows]
+  | cons r rows ih =>
+    cases xss with
+    | nil =>
+      have : vs = [] := by simpa using hv
+      have : ws = [] := by simpa using hw
+      simp_all [choicewRows]
+    | cons xs xss =>
+      cases vs with
+      | nil => simp at hv
+      | cons v vs =>
+        cases ws with
+        | nil => simp at hw
+        | cons w ws =>
+          simp only [List.map_cons, List.cons.injEq] at hv hw
+          have h1 := choicew_items s r v w xs hv.1 hw.1
+          simp only [choicewRows, h1, bind, Except.bind]
+          cases choicew s r w with
+          | error e => rfl
+          | ok t =>
+            obtain ⟨s1, a, p⟩ := t
+            simp only [ih s1 vs ws xss hv.2 hw.2]
+
+
+
+
+/-- the kwargs a column-major batch ends up with -/
+def kwColVal (sp : Spec) (R : Rows) : PyVal := if sp.kw then kwCols R else .dict .tmp [] []
+
+theorem kwColVal_view (sp : Spec) (R : Rows) (a p : PyVal) (A P : List PyVal)
+    (ha : a.items = some A) (hp : p.items = some P) :
+    (Result.mk a p (kwColVal sp R)).view = some ⟨A, P, (wantKw sp R).1, (wantKw sp R).2⟩ := by
+  unfold kwColVal wantKw
+  cases hk : sp.kw
+  · simp [Result.view, ha, hp, allItems]
+  · cases R with
+    | nil => simp [Result.view, ha, hp, allItems, kwCols]
+    | cons r R' =>
+      obtain ⟨a0, as0⟩ := r
+      have := allItems_lists (a0.kwKeys.map (fun k => ((a0, as0) :: R').map (fun r => (lookupKey k r.1.kwKeys r.1.kwVals).getD .none))) (.lrn 0)
+      simp only [List.map_map] at this
+      simp [Result.view, ha, hp, kwCols]
+      exact this
+
+@[simp] theorem getIdx_seqTmp_zero (t : Bool) (x : PyVal) (xs : List PyVal) : getIdx (seqTmp t (x :: xs)) 0 = .ok x := by
+  cases t <;> simp [seqTmp, getIdx]
+@[simp] theorem isDict_seqTmp (t : Bool) (xs : List PyVal) : (seqTmp t xs).isDict = false := by
+  cases t <;> simp [seqTmp, PyVal.isDict]
+
+theorem parseCol_A (fx : Fixes) (sp : Spec) (st : State) (hkw : st.hasKw = sp.kw) (R : Rows) (hne : R ≠ [])
+    (hf : sp.fmt = .A) (hok : fx.col = true) :
+    DeliversN (parseCol fx st sp.pfmt (R.map (·.2)) (renderCol sp R)) (wantBatch sp st.rng R) := by
+  rw [renderCol_eq sp R hne]
+  obtain ⟨fmt, kw, lay, tup, ptup⟩ := sp
+  simp only at hf hkw; subst hf
+  cases kw
+  · simp only [parseCol, hkw, hok, Spec.pfmt, Fmt.kind, Fmt.hinted, colsOf, Bool.false_eq_true, ↓reduceIte, Bool.true_and,
+      bind, Except.bind, pure, Except.pure, getIdx_mkSeq_zero, lenE, PyVal.hasLen, PyVal.len, wantBatch, DeliversN,
+      decide_true]
+    refine ⟨_, rfl, ?_⟩
+    have := kwColVal_view ⟨.A, false, lay, tup, ptup⟩ R (.list (.lrn 0) (R.map (fun r => r.1.action r.2)))
+      (noneList (R.map (fun r => r.1.action r.2)).length) (R.map (fun r => r.1.action r.2)) _ rfl (items_noneList _)
+    rw [replicate_map_length] at this
+    simpa [kwColVal] using this
+  · simp only [parseCol, hkw, hok, Spec.pfmt, Fmt.kind, Fmt.hinted, colsOf, ↓reduceIte, Bool.true_and,
+      bind, Except.bind, pure, Except.pure, getLast_mkSeq, dropLast_mkSeq, getIdx_seqTmp_zero, lenE, PyVal.hasLen, PyVal.len, wantBatch, DeliversN,
+      decide_true, Bool.false_eq_true]
+    refine ⟨_, rfl, ?_⟩
+    have := kwColVal_view ⟨.A, true, lay, tup, ptup⟩ R (.list (.lrn 0) (R.map (fun r => r.1.action r.2)))
+      (noneList (R.map (fun r => r.1.action r.2)).length) (R.map (fun r => r.1.action r.2)) _ rfl (items_noneList _)
+    rw [replicate_map_length] at this
+    simpa [kwColVal] using this
+
+
+
+
+theorem parseCol_AP (fx : Fixes) (sp : Spec) (st : State) (hkw : st.hasKw = sp.kw) (R : Rows) (hne : R ≠ [])
+    (hf : sp.fmt = .AP) :
+    DeliversN (parseCol fx st sp.pfmt (R.map (·.2)) (renderCol sp R)) (wantBatch sp st.rng R) := by
+  rw [renderCol_eq sp R hne]
+  obtain ⟨fmt, kw, lay, tup, ptup⟩ := sp
+  simp only at hf hkw; subst hf
+  cases kw
+  · simp only [parseCol, hkw, Spec.pfmt, Fmt.kind, Fmt.hinted, colsOf, Bool.false_eq_true, ↓reduceIte,
+      bind, Except.bind, pure, Except.pure, itemsE, iter_mkSeq, wantBatch, DeliversN, Bool.and_false,
+      decide_false, reduceCtorEq, iter_mkSeq, iter_seqTmp]
+    refine ⟨_, rfl, ?_⟩
+    have := kwColVal_view ⟨.AP, false, lay, tup, ptup⟩ R (.list (.lrn 0) (R.map (fun r => r.1.action r.2)))
+      (.list (.lrn 0) (R.map (fun r => r.1.p))) (R.map (fun r => r.1.action r.2)) (R.map (fun r => r.1.p)) rfl rfl
+    simpa [kwColVal] using this
+  · simp only [parseCol, hkw, Spec.pfmt, Fmt.kind, Fmt.hinted, colsOf, Bool.false_eq_true, ↓reduceIte,
+      bind, Except.bind, pure, Except.pure, itemsE, getLast_mkSeq, dropLast_mkSeq, iter_seqTmp, wantBatch, DeliversN, Bool.and_false,
+      decide_false, reduceCtorEq, iter_mkSeq, iter_seqTmp]
+    refine ⟨_, rfl, ?_⟩
+    have := kwColVal_view ⟨.AP, true, lay, tup, ptup⟩ R (.list (.lrn 0) (R.map (fun r => r.1.action r.2)))
+      (.list (.lrn 0) (R.map (fun r => r.1.p))) (R.map (fun r => r.1.action r.2)) (R.map (fun r => r.1.p)) rfl rfl
+    simpa [kwColVal] using this
+
+
+
+
+theorem hintVal_inner (sp : Spec) (ans : Answer) (as : List PyVal) (hh : sp.fmt.hinted = true) :
+    hintVal sp ans as = inner sp ans as := by
+  obtain ⟨fmt, kw, lay, tup, ptup⟩ := sp
+  cases fmt <;> simp [Fmt.hinted] at hh <;> simp [hintVal, inner]
+
+/-- the last step of the column-major branch once the hinted column (one value per row) is unpacked -/
+theorem colFinish_hinted (sp : Spec) (s : Nat) (R : Rows) (hne : R ≠ []) (hh : sp.fmt.hinted = true) :
+    DeliversN
+      (match sp.fmt.kind with
+        | .PM => do
+          let body ← itemsE (PyVal.list (.lrn 0) (R.map (fun r => hintVal sp r.1 r.2)))
+          let (s', A, P) ← choicewRows s (R.map (·.2)) body
+          if A.isEmpty then .error .value else pure (⟨.list .tmp A, .list .tmp P, kwColVal sp R⟩, s')
+        | .AX => do
+          let n ← lenE (PyVal.list (.lrn 0) (R.map (fun r => hintVal sp r.1 r.2)))
+          pure (⟨PyVal.list (.lrn 0) (R.map (fun r => hintVal sp r.1 r.2)), noneList n, kwColVal sp R⟩, s)
+        | .AP => do
+          let body ← itemsE (PyVal.list (.lrn 0) (R.map (fun r => hintVal sp r.1 r.2)))
+          let (A, P) ← unzipPairs body
+          pure (⟨A, P, kwColVal sp R⟩, s))
+      (wantBatch sp s R) := by
+  have hv : ∀ r : Answer × List PyVal, hintVal sp r.1 r.2 = inner sp r.1 r.2 := fun r => hintVal_inner sp r.1 r.2 hh
+  simp only [hv, itemsE, iter, lenE, PyVal.hasLen, PyVal.len, ↓reduceIte, bind, Except.bind, pure, Except.pure]
+  cases hk : sp.fmt.kind
+  case AX =>
+    have hin : ∀ r : Answer × List PyVal, inner sp r.1 r.2 = r.1.action r.2 := by
+      intro r; obtain ⟨fmt, kw, lay, tup, ptup⟩ := sp; cases fmt <;> simp [Fmt.kind] at hk <;> simp [inner]
+    simp only [wantBatch, hk, DeliversN]
+    refine ⟨_, rfl, ?_⟩
+    have := kwColVal_view sp R (.list (.lrn 0) (R.map (fun r => inner sp r.1 r.2)))
+      (noneList (R.map (fun r => inner sp r.1 r.2)).length) (R.map (fun r => inner sp r.1 r.2)) _ rfl (items_noneList _)
+    rw [replicate_map_length] at this
+    simpa [hin] using this
+  case AP =>
+    have h1 : mapE itemsE (R.map (fun r => inner sp r.1 r.2)) = .ok (R.map (fun r => [r.1.action r.2, r.1.p])) :=
+      mapE_map_ok _ _ _ R (fun r _ => by simpa [itemsE] using iter_inner_AP sp r.1 r.2 hk)
+    have h2 := zipStar_pairs (fun r : Answer × List PyVal => r.1.action r.2) (fun r => r.1.p) R hne
+    simp only [wantBatch, hk, DeliversN, unzipPairs, h1, h2, bind, Except.bind, pure, Except.pure]
+    refine ⟨_, rfl, ?_⟩
+    exact kwColVal_view sp R _ _ _ _ (by simp [PyVal.items]) (by simp [PyVal.items])
+  case PM =>
+    have hin : ∀ r : Answer × List PyVal, inner sp r.1 r.2 = mkPmf sp.pmfTup r.1.pmf := by
+      intro r; obtain ⟨fmt, kw, lay, tup, ptup⟩ := sp; cases fmt <;> simp [Fmt.kind] at hk <;> simp [inner]
+    simp only [wantBatch, hk, hin]
+    cases hc : choicewRows s (R.map (·.2)) (R.map (fun r => mkPmf sp.pmfTup r.1.pmf)) with
+    | error e => simp [DeliversN]
+    | ok v =>
+      obtain ⟨s', A, P⟩ := v
+      have := choicewRows_ne _ _ _ _ _ _ hc (by simpa using hne) (by simpa using hne)
+      simp only [this, Bool.false_eq_true, ↓reduceIte, DeliversN]
+      refine ⟨_, rfl, ?_⟩
+      exact kwColVal_view sp R _ _ _ _ (by simp [PyVal.items]) (by simp [PyVal.items])
+
+theorem parseCol_hinted (fx : Fixes) (sp : Spec) (st : State) (hkw : st.hasKw = sp.kw) (R : Rows) (hne : R ≠ [])
+    (hh : sp.fmt.hinted = true) (hok : fx.col = true ∨ sp.kw = false) :
+    DeliversN (parseCol fx st sp.pfmt (R.map (·.2)) (renderCol sp R)) (wantBatch sp st.rng R) := by
+  have key := colFinish_hinted sp st.rng R hne hh
+  rw [renderCol_eq sp R hne]
+  have hcols : colsOf sp R = [.dict (.lrn 0) [sp.fmt.hint] [.list (.lrn 0) (R.map (fun r => hintVal sp r.1 r.2))]] := by
+    obtain ⟨fmt, kw, lay, tup, ptup⟩ := sp
+    cases fmt <;> simp [Fmt.hinted] at hh <;> simp [colsOf]
+  cases hk : sp.kw
+  · simp only [parseCol, hkw, hk, hh, hcols, Spec.pfmt, Bool.false_eq_true, ↓reduceIte, List.getD_cons_zero, isDict_dict,
+      Bool.not_true, Bool.and_false, firstValue, bind, Except.bind, pure, Except.pure, kwColVal] at key ⊢
+    exact key
+  · have hc : fx.col = true := by rcases hok with h | h; exact h; rw [hk] at h; cases h
+    simp only [parseCol, hkw, hk, hh, hc, hcols, Spec.pfmt, ↓reduceIte, List.getD_cons_zero, isDict_dict, isDict_seqTmp,
+      Bool.not_false, Bool.and_self, getLast_mkSeq, dropLast_mkSeq, getIdx_seqTmp_zero,
+      firstValue, bind, Except.bind, pure, Except.pure, kwColVal] at key ⊢
+    exact key
+
+
+
+
+theorem pmfTable_rect (sp : Spec) (R : Rows) (hne : R ≠ []) (hf : sp.fmt = .PM) (ht : pmfTable sp R = true) :
+    ∃ K, 0 < K ∧ Rect K (R.map (fun r => r.1.pmf)) := by
+  cases R with
+  | nil => exact absurd rfl hne
+  | cons r R' =>
+    simp only [pmfTable, hf, bne_self_eq_false, Bool.false_or, Bool.and_eq_true, decide_eq_true_eq, List.all_eq_true, beq_iff_eq] at ht
+    refine ⟨r.1.pmf.length, ht.1, ?_⟩
+    intro x hx
+    simp only [List.mem_map] at hx
+    obtain ⟨y, hy, rfl⟩ := hx
+    exact ht.2 y hy
+
+theorem mapE_items_lists (cs : List (List PyVal)) (r : Ref) :
+    mapE itemsE (cs.map (fun c => PyVal.list r c)) = .ok cs := by
+  have := mapE_map_ok itemsE (fun c => PyVal.list r c) id cs (by intro c _; simp [itemsE, iter])
+  simpa using this
+
+@[simp] theorem iter_list (r : Ref) (xs : List PyVal) : iter (PyVal.list r xs) = .ok xs := rfl
+
+theorem parseCol_PM (fx : Fixes) (sp : Spec) (st : State) (hkw : st.hasKw = sp.kw) (R : Rows) (hne : R ≠ [])
+    (hf : sp.fmt = .PM) (hok : fx.col = true) (ht : pmfTable sp R = true) :
+    DeliversN (parseCol fx st sp.pfmt (R.map (·.2)) (renderCol sp R)) (wantBatch sp st.rng R) := by
+  obtain ⟨K, hK, hrect⟩ := pmfTable_rect sp R hne hf ht
+  have hinv := zipStar_zipStar K hK (R.map (fun r => r.1.pmf)) (by simpa using hne) hrect
+  have hitems := mapE_items_lists (zipStar (R.map (fun r => r.1.pmf))) (.lrn 0)
+  have hcong : choicewRows st.rng (R.map (·.2)) ((R.map (fun r => r.1.pmf)).map (fun r => PyVal.tuple .tmp r)) =
+      choicewRows st.rng (R.map (·.2)) (R.map (fun r => mkPmf sp.pmfTup r.1.pmf)) :=
+    choicewRows_items _ _ _ _ (R.map (fun r => r.1.pmf)) (by simp [PyVal.items, Function.comp_def]) (by simp [mkPmf, Function.comp_def])
+  rw [renderCol_eq sp R hne]
+  obtain ⟨fmt, kw, lay, tup, ptup⟩ := sp
+  simp only at hf hkw; subst hf
+  have fin : DeliversN
+      (Except.bind (choicewRows st.rng (R.map (·.2)) (R.map (fun r => mkPmf ptup r.1.pmf)))
+        (fun v => if v.2.1.isEmpty then .error .value else .ok (⟨.list .tmp v.2.1, .list .tmp v.2.2, kwColVal ⟨.PM, kw, lay, tup, ptup⟩ R⟩, v.1)))
+      (wantBatch ⟨.PM, kw, lay, tup, ptup⟩ st.rng R) := by
+    simp only [wantBatch, Fmt.kind]
+    cases hc : choicewRows st.rng (R.map (·.2)) (R.map (fun r => mkPmf ptup r.1.pmf)) with
+    | error e => simp [DeliversN, Except.bind]
+    | ok v =>
+      obtain ⟨s', A, P⟩ := v
+      have := choicewRows_ne _ _ _ _ _ _ hc (by simpa using hne) (by simpa using hne)
+      simp only [Except.bind, this, Bool.false_eq_true, ↓reduceIte, DeliversN]
+      refine ⟨_, rfl, ?_⟩
+      exact kwColVal_view _ R _ _ _ _ (by simp [PyVal.items]) (by simp [PyVal.items])
+  cases kw
+  · simp only [parseCol, hkw, hok, Spec.pfmt, Fmt.kind, Fmt.hinted, colsOf, Bool.false_eq_true, ↓reduceIte, Bool.true_and,
+      bind, Except.bind, pure, Except.pure, itemsE, iter_mkSeq, decide_true, hitems, hinv, iter_list, hcong, kwColVal] at fin ⊢
+    exact fin
+  · simp only [parseCol, hkw, hok, Spec.pfmt, Fmt.kind, Fmt.hinted, colsOf, Bool.false_eq_true, ↓reduceIte, Bool.true_and,
+      bind, Except.bind, pure, Except.pure, itemsE, getLast_mkSeq, dropLast_mkSeq, iter_seqTmp, decide_true, hitems, hinv, iter_list, hcong, kwColVal] at fin ⊢
+    exact fin
+
+
+
+
+theorem parseCol_cols (fx : Fixes) (sp : Spec) (st : State) (hkw : st.hasKw = sp.kw) (R : Rows) (hne : R ≠ [])
+    (hok : colParseOK fx sp = true) (ht : pmfTable sp R = true) :
+    DeliversN (parseCol fx st sp.pfmt (R.map (·.2)) (renderCol sp R)) (wantBatch sp st.rng R) := by
+  simp only [colParseOK, Bool.or_eq_true, Bool.and_eq_true, beq_iff_eq, Bool.not_eq_true'] at hok
+  cases hf : sp.fmt
+  case AP => exact parseCol_AP fx sp st hkw R hne hf
+  case A =>
+    have : fx.col = true := by
+      rcases hok with (h | h) | h
+      · exact h
+      · rw [hf] at h; cases h
+      · rw [hf] at h; simp [Fmt.hinted] at h
+    exact parseCol_A fx sp st hkw R hne hf this
+  case PM =>
+    have : fx.col = true := by
+      rcases hok with (h | h) | h
+      · exact h
+      · rw [hf] at h; cases h
+      · rw [hf] at h; simp [Fmt.hinted] at h
+    exact parseCol_PM fx sp st hkw R hne hf this ht
+  all_goals
+    have hh : sp.fmt.hinted = true := by rw [hf]; rfl
+    have hok' : fx.col = true ∨ sp.kw = false := by
+      rcases hok with (h | h) | h
+      · exact Or.inl h
+      · rw [hf] at h; cases h
+      · exact Or.inr h.2
+    exact parseCol_hinted fx sp st hkw R hne hh hok'
+
+/-- number of columns of an un-hinted column-major answer (without the kwargs column) -/
+def ncols (sp : Spec) (a0 : Answer) : Nat :=
+  match sp.fmt with
+  | .AP => 2
+  | .PM => a0.pmf.length
+  | _ => 1
+
+theorem firstOfEach_lists (C : List (List PyVal)) (h : List PyVal) (r : Ref) (hh : heads C = some h) :
+    firstOfEach (C.map (fun c => PyVal.list r c)) = .ok h := by
+  induction C generalizing h with
+  | nil => simp [heads] at hh; subst hh; simp [firstOfEach, pure, Except.pure]
+  | cons c C ih =>
+    cases c with
+    | nil => simp [heads] at hh
+    | cons x c =>
+      cases hC : heads C with
+      | none => simp [heads, hC] at hh
+      | some h' =>
+        simp [heads, hC] at hh
+        subst hh
+        simp [firstOfEach, getIdx, ih h' hC, bind, Except.bind, pure, Except.pure]
+
+theorem heads_zipStar (K : Nat) (hK : 0 < K) (r : List PyVal) (M : List (List PyVal)) (hrect : Rect K (r :: M)) :
+    heads (zipStar (r :: M)) = some r := by
+  have hinv := zipStar_zipStar K hK (r :: M) (by simp) hrect
+  have hlen := zipStarAux_length K (r :: M) (by simp) hrect
+  have hz : zipStar (r :: M) = zipStarAux K (r :: M) := by simp [zipStar, hrect r (by simp)]
+  rw [← hz] at hlen
+  cases hC : zipStar (r :: M) with
+  | nil => rw [hC] at hlen; simp at hlen; omega
+  | cons c0 C =>
+    rw [hC] at hinv hlen
+    have hc0 : c0.length = (r :: M).length := hlen.2 c0 (by simp)
+    simp only [zipStar] at hinv
+    rw [hc0] at hinv
+    simp only [List.length_cons, zipStarAux] at hinv
+    cases hh : heads (c0 :: C) with
+    | none => simp [hh] at hinv
+    | some h => simp [hh] at hinv; rw [hinv.1]
+
+
+
+
+/-- the fields of the first row as `first_row` collects them from the columns -/
+def rowFields (sp : Spec) (a0 : Answer) (as0 : List PyVal) : List PyVal :=
+  match sp.fmt with
+  | .AP => [a0.action as0, a0.p]
+  | .PM => a0.pmf
+  | _ => [a0.action as0]
+
+theorem colsOf_shape (sp : Spec) (a0 : Answer) (as0 : List PyVal) (R' : Rows) (hun : sp.fmt.hinted = false)
+    (ht : pmfTable sp ((a0, as0) :: R') = true) :
+    (∃ c0 rest, colsOf sp ((a0, as0) :: R') = .list (.lrn 0) c0 :: rest ∧ c0.length = R'.length + 1) ∧
+    (colsOf sp ((a0, as0) :: R')).length = ncols sp a0 ∧
+    firstOfEach (colsOf sp ((a0, as0) :: R')) = .ok (rowFields sp a0 as0) ∧
+    (∀ c ∈ colsOf sp ((a0, as0) :: R'), c.isDict = false) ∧ 0 < ncols sp a0 := by
+  obtain ⟨fmt, kw, lay, tup, ptup⟩ := sp
+  cases fmt <;> simp [Fmt.hinted] at hun
+  case A =>
+    refine ⟨⟨_, _, rfl, by simp⟩, rfl, ?_, ?_, by simp [ncols]⟩
+    · simp [colsOf, firstOfEach, getIdx, rowFields, bind, Except.bind, pure, Except.pure]
+    · intro c hc; simp [colsOf] at hc; subst hc; rfl
+  case AP =>
+    refine ⟨⟨_, _, rfl, by simp⟩, rfl, ?_, ?_, by simp [ncols]⟩
+    · simp [colsOf, firstOfEach, getIdx, rowFields, bind, Except.bind, pure, Except.pure]
+    · intro c hc; simp [colsOf] at hc; rcases hc with rfl | rfl <;> rfl
+  case PM =>
+    obtain ⟨K, hK, hrect⟩ := pmfTable_rect ⟨.PM, kw, lay, tup, ptup⟩ ((a0, as0) :: R') (by simp) rfl ht
+    simp only [List.map_cons] at hrect
+    have hK0 : a0.pmf.length = K := hrect a0.pmf (by simp)
+    have hlen := zipStarAux_length K (a0.pmf :: R'.map (fun r => r.1.pmf)) (by simp) hrect
+    have hz : zipStar (a0.pmf :: R'.map (fun r => r.1.pmf)) = zipStarAux K (a0.pmf :: R'.map (fun r => r.1.pmf)) := by
+      simp [zipStar, hK0]
+    rw [← hz] at hlen
+    have hheads := heads_zipStar K hK a0.pmf (R'.map (fun r => r.1.pmf)) hrect
+    refine ⟨?_, ?_, ?_, ?_, by simp [ncols, hK0, hK]⟩
+    · cases hC : zipStar (a0.pmf :: R'.map (fun r => r.1.pmf)) with
+      | nil => rw [hC] at hlen; simp at hlen; omega
+      | cons c0 C =>
+        rw [hC] at hlen
+        refine ⟨c0, C.map (fun c => PyVal.list (.lrn 0) c), by simp [colsOf, hC], ?_⟩
+        have := hlen.2 c0 (by simp)
+        simpa using this
+    · simp [colsOf, ncols, hlen.1, hK0]
+    · simpa [colsOf, rowFields] using firstOfEach_lists _ _ (.lrn 0) hheads
+    · intro c hc; simp [colsOf] at hc; obtain ⟨x, _, rfl⟩ := hc; rfl
+
 
 end Coba.C15
